@@ -1,12 +1,2757 @@
-//! C10 — not built yet (stub).
+//! C10 — Encoding round-trips and object hashes are version-independent and canonical.
+//!
+//! Parts (= type families): `tx`, `chain`, `segment`, `p2p`. A case is
+//! `{type, enc_version, mainnet, hex}`: the hex of `ser_vec(x, enc_version)` at
+//! a lossless version; replay decodes it and re-runs the same typed check.
 
 use crate::engine::*;
-use serde_json::Value;
+use crate::refmmr::blake;
+use crate::world::{init_global, init_thread, scalar_from, OutRef, LIB};
+use crate::{ensure, fail};
+use chrono::{DateTime, Utc};
+use grin_chain::txhashset::{BitmapChunk, BitmapSegment};
+use grin_chain::types::{CommitPos, Tip};
+use grin_core::core::hash::{Hash, Hashed};
+use grin_core::core::id::ShortIdentifiable;
+use grin_core::core::merkle_proof::MerkleProof;
+use grin_core::core::pmmr::{ReadablePMMR, ReadonlyPMMR, VecBackend, PMMR};
+use grin_core::core::{
+	Block, BlockHeader, BlockSums, CommitWrapper, CompactBlock, FeeFields, HeaderEntry, HeaderVersion, Input, Inputs,
+	KernelFeatures, NRDRelativeHeight, Output, OutputFeatures, OutputIdentifier, Segment, SegmentIdentifier, SegmentProof,
+	ShortId, Transaction, TransactionBody, TxKernel,
+};
+use grin_core::global::{self, ChainTypes};
+use grin_core::pow::{Difficulty, Proof, ProofOfWork};
+use grin_core::ser::{self, DeserializationMode, PMMRable, ProtocolVersion, Readable, Reader, Writeable, Writer};
+use grin_keychain::BlindingFactor;
+use grin_p2p::msg::{
+	BanReason, GetPeerAddrs, Hand, Headers, Locator, MsgHeader, MsgHeaderWrapper, OutputBitmapSegmentResponse,
+	OutputSegmentResponse, PeerAddrs, PeerError, Ping, Pong, SegmentRequest, SegmentResponse, Shake, TxHashSetArchive,
+	TxHashSetRequest, Type,
+};
+use grin_p2p::{Capabilities, PeerAddr, ReasonForBan};
+use grin_util::secp::pedersen::{Commitment, RangeProof};
+use grin_util::secp::Signature;
+use grin_util::{static_secp_instance, ToHex};
+use lazy_static::lazy_static;
+use proptest::prelude::*;
+use serde_json::{json, Value};
+use std::net::{Ipv4Addr, Ipv6Addr, SocketAddr, SocketAddrV4, SocketAddrV6};
+use std::ops::Range;
 
-pub fn run(_ctx: &Ctx) -> HResult<()> {
-	Err(HarnessError("C10 check not built yet".into()))
+const WEEK_HEIGHT: u64 = grin_core::consensus::WEEK_HEIGHT;
+const PROOF_LEN: usize = 675;
+
+// ------------------------------------------------------------------ basics
+
+fn versions() -> Vec<u32> {
+	let mut v = vec![1, 2, 3, 1000, ProtocolVersion::local().0, ProtocolVersion::local_db().0];
+	v.sort();
+	v.dedup();
+	v
 }
 
-pub fn replay(_ctx: &Ctx, _part: &str, _case: &Value) -> PResult {
+fn enc<T: Writeable>(x: &T, v: u32) -> Result<Vec<u8>, ser::Error> {
+	ser::ser_vec(x, ProtocolVersion(v))
+}
+
+/// decode from a byte slice; returns the result and the number of bytes consumed
+fn dec<T: Readable>(b: &[u8], v: u32) -> (Result<T, ser::Error>, usize) {
+	let mut s: &[u8] = b;
+	let r = ser::deserialize::<T, _>(&mut s, ProtocolVersion(v), DeserializationMode::default());
+	(r, b.len() - s.len())
+}
+
+fn hex(b: &[u8]) -> String {
+	b.to_vec().to_hex()
+}
+
+fn hex_short(b: &[u8]) -> String {
+	truncate(&hex(b), 400)
+}
+
+/// deterministic pseudo-random bytes from a seed
+fn expand(seed: u64, tag: u8, n: usize) -> Vec<u8> {
+	let mut out = Vec::with_capacity(n + 32);
+	let mut ctr = 0u32;
+	while out.len() < n {
+		out.extend_from_slice(&blake(&[b"c10", &seed.to_be_bytes(), &[tag], &ctr.to_be_bytes()]));
+		ctr += 1;
+	}
+	out.truncate(n);
+	out
+}
+
+fn hash_from(seed: u64, tag: u8) -> Hash {
+	Hash::from_vec(&expand(seed, tag, 32))
+}
+
+fn u64_from(seed: u64, tag: u8) -> u64 {
+	let b = expand(seed, tag, 8);
+	u64::from_be_bytes([b[0], b[1], b[2], b[3], b[4], b[5], b[6], b[7]])
+}
+
+fn set_chain(mainnet: bool) {
+	global::set_local_chain_type(if mainnet { ChainTypes::Mainnet } else { ChainTypes::AutomatedTesting });
+}
+
+fn be64(b: &[u8], at: usize) -> u64 {
+	let mut a = [0u8; 8];
+	a.copy_from_slice(&b[at..at + 8]);
+	u64::from_be_bytes(a)
+}
+
+fn put64(b: &mut [u8], at: usize, x: u64) {
+	b[at..at + 8].copy_from_slice(&x.to_be_bytes());
+}
+
+lazy_static! {
+	/// pool of valid commitments: 0..128 are used by inputs and kernel excesses,
+	/// 128..256 by synthetic outputs (so a transaction never spends its own output)
+	static ref COMMITS: Vec<Commitment> = {
+		let keys: Vec<_> = (0..256).map(|i| scalar_from(format!("c10-commit-{}", i).as_bytes())).collect();
+		let secp = static_secp_instance();
+		let secp = secp.lock();
+		keys.into_iter()
+			.enumerate()
+			.map(|(i, k)| {
+				let v = match i % 4 {
+					0 => 0,
+					1 => i as u64,
+					2 => u64::MAX - i as u64,
+					_ => (i as u64) << 32,
+				};
+				secp.commit(v, k).expect("commit")
+			})
+			.collect()
+	};
+}
+
+/// outputs with real bulletproofs (all present in the shared on-disk cache)
+fn universe() -> Vec<OutRef> {
+	let mut v = vec![];
+	for k in [0u32, 1, 2, 3, 4, 7, 8, 9, 10, 11, 14, 15, 16, 17, 18, 21] {
+		v.push(OutRef { amount: 1, key: k, cb: false });
+	}
+	for k in [4u32, 5, 6, 8, 9, 10, 12, 13] {
+		v.push(OutRef { amount: grin_core::consensus::REWARD, key: k, cb: true });
+	}
+	v
+}
+
+// ------------------------------------------------------------------ the object trait
+
+/// One derived non-canonical encoding. `strict`: decoding must fail. Otherwise
+/// (count fields promising more than the content holds) decoding may succeed
+/// only if the bytes happen to be the exact canonical encoding of what was read.
+pub struct Mutation {
+	rule: &'static str,
+	bytes: Vec<u8>,
+	strict: bool,
+}
+
+fn mutate(out: &mut Vec<Mutation>, rule: &'static str, strict: bool, b: &[u8], f: impl FnOnce(&mut Vec<u8>)) {
+	let mut m = b.to_vec();
+	f(&mut m);
+	out.push(Mutation { rule, bytes: m, strict });
+}
+
+pub trait Obj: Writeable + Readable + Sized {
+	fn tag() -> String;
+	/// equality in the sense of the property at version v
+	fn same(&self, y: &Self, v: u32) -> Result<(), String>;
+	/// (non-trivial by the rule, shape class)
+	fn shape(&self) -> (bool, String);
+	/// a version whose encoding loses nothing (used for replay files)
+	fn lossless(&self) -> u32 {
+		1
+	}
+	/// the writer documents UnsupportedProtocolVersion for this value at v
+	fn unsupported(&self, _v: u32) -> bool {
+		false
+	}
+	/// identity hash, for the types that have one
+	fn id_hash(&self) -> Option<Hash> {
+		None
+	}
+	/// bytes whose blake2b-256 is the identity hash by definition (independent oracle)
+	fn id_preimage(&self) -> Option<Vec<u8>> {
+		None
+	}
+	/// one-rule violations of the canonical form derived from the valid encoding b at version v
+	fn mutations(&self, _v: u32, _b: &[u8], _out: &mut Vec<Mutation>) {}
+	/// extra evidence classes (variant coverage)
+	fn classes(&self) -> Vec<String> {
+		vec![]
+	}
+}
+
+fn case_json<T: Obj>(x: &T, mainnet: bool) -> Value {
+	let v = x.lossless();
+	match enc(x, v) {
+		Ok(b) => json!({"type": T::tag(), "enc_version": v, "mainnet": mainnet, "hex": hex(&b)}),
+		Err(e) => json!({"type": T::tag(), "enc_version": v, "mainnet": mainnet, "hex": "", "encode_error": format!("{:?}", e)}),
+	}
+}
+
+fn check_mutation<T: Obj>(ctx: &Ctx, v: u32, b1: &[u8], m: &Mutation, counting: bool) -> PResult {
+	let tag = T::tag();
+	if m.rule == "layout-mismatch" {
+		// the encoding is not laid out as the documented format says (or the harness's layout model is wrong)
+		fail!(format!("layout-mismatch:{}", tag), "{} v{}: {}; bytes={}", tag, v, String::from_utf8_lossy(&m.bytes), hex_short(b1));
+	}
+	ensure!(m.bytes != b1, "harness:mutation-noop", "{} v{} rule {}: mutation did not change the encoding", tag, v, m.rule);
+	if counting {
+		ctx.ev.eval();
+		ctx.ev.class(&format!("reject:{}", m.rule));
+		ctx.ev.nontrivial(&(&tag, v, "reject", m.rule));
+	}
+	let (r, used) = dec::<T>(&m.bytes, v);
+	match r {
+		Err(_) => Ok(()),
+		Ok(y) => {
+			if m.strict {
+				fail!(
+					format!("noncanonical-accepted:{}:{}", m.rule, tag),
+					"{} v{}: encoding violating rule '{}' was decoded (consumed {} of {} bytes); valid={} mutated={}",
+					tag,
+					v,
+					m.rule,
+					used,
+					m.bytes.len(),
+					hex_short(b1),
+					hex_short(&m.bytes)
+				);
+			}
+			let re = enc(&y, v);
+			if re.as_ref().map(|r| r[..] == m.bytes[..]).unwrap_or(false) {
+				if counting {
+					ctx.ev.class("mutation_coincidentally_canonical");
+				}
+				Ok(())
+			} else {
+				fail!(
+					format!("noncanonical-normalised:{}:{}", m.rule, tag),
+					"{} v{}: encoding violating rule '{}' was decoded and re-encodes differently (consumed {} of {}); mutated={}",
+					tag,
+					v,
+					m.rule,
+					used,
+					m.bytes.len(),
+					hex_short(&m.bytes)
+				);
+			}
+		}
+	}
+}
+
+/// The whole C10 check for one value.
+fn check_obj<T: Obj>(ctx: &Ctx, x: &T, counting: bool) -> PResult {
+	let ev = &ctx.ev;
+	let tag = T::tag();
+	let h0 = x.id_hash();
+	if let (Some(h), Some(pre)) = (h0, x.id_preimage()) {
+		ensure!(
+			h.as_bytes() == &blake(&[&pre])[..],
+			format!("hash-definition:{}", tag),
+			"{}: identity hash {:?} is not blake2b of the version-1 identity encoding {}",
+			tag,
+			h,
+			hex_short(&pre)
+		);
+	}
+	let (nontriv, shape) = x.shape();
+	for v in versions() {
+		if counting {
+			ev.eval();
+		}
+		let b1 = match enc(x, v) {
+			Ok(b) => {
+				ensure!(
+					!x.unsupported(v),
+					format!("unsupported-version-written:{}", tag),
+					"{} v{}: writer accepted a value this version cannot carry",
+					tag,
+					v
+				);
+				b
+			}
+			Err(e) => {
+				if x.unsupported(v) {
+					ensure!(
+						e == ser::Error::UnsupportedProtocolVersion,
+						format!("unsupported-version-error:{}", tag),
+						"{} v{}: expected UnsupportedProtocolVersion, got {:?}",
+						tag,
+						v,
+						e
+					);
+					if counting {
+						ev.class(&format!("unsupported_version_refused:{}", tag));
+						ev.nontrivial(&(&tag, v, "unsupported"));
+					}
+					continue;
+				}
+				fail!(format!("encode-failed:{}", tag), "{} v{}: ser_vec failed: {:?} ({})", tag, v, e, shape);
+			}
+		};
+		let (r, used) = dec::<T>(&b1, v);
+		let y = match r {
+			Ok(y) => y,
+			Err(e) => fail!(format!("decode-failed:{}", tag), "{} v{}: own encoding refused: {:?}; bytes={}", tag, v, e, hex_short(&b1)),
+		};
+		ensure!(
+			used == b1.len(),
+			format!("decode-consumed:{}", tag),
+			"{} v{}: decoder consumed {} of {} bytes of its own encoding",
+			tag,
+			v,
+			used,
+			b1.len()
+		);
+		if let Err(m) = x.same(&y, v) {
+			fail!(format!("roundtrip-mismatch:{}", tag), "{} v{}: decoded value differs: {}; bytes={}", tag, v, m, hex_short(&b1));
+		}
+		let b2 = match enc(&y, v) {
+			Ok(b) => b,
+			Err(e) => fail!(format!("reencode-failed:{}", tag), "{} v{}: {:?}", tag, v, e),
+		};
+		ensure!(
+			b2 == b1,
+			format!("reencode-differs:{}", tag),
+			"{} v{}: re-encoding differs: first={} second={}",
+			tag,
+			v,
+			hex_short(&b1),
+			hex_short(&b2)
+		);
+		if let Some(h) = h0 {
+			let hy = y.id_hash();
+			ensure!(
+				hy == Some(h),
+				format!("hash-version-dependent:{}", tag),
+				"{}: identity hash {:?} became {:?} after a round trip at version {}",
+				tag,
+				h,
+				hy,
+				v
+			);
+		}
+		// the streaming reader (used by the store and p2p read_item) must agree with the slice reader
+		{
+			let mut cur = std::io::Cursor::new(&b1[..]);
+			let mut sr = ser::StreamingReader::new(&mut cur, ProtocolVersion(v));
+			match T::read(&mut sr) {
+				Ok(y2) => {
+					if let Err(m) = x.same(&y2, v) {
+						fail!(format!("roundtrip-mismatch-streaming:{}", tag), "{} v{}: StreamingReader decoded a different value: {}", tag, v, m);
+					}
+					if counting && sr.total_bytes_read() != b1.len() as u64 {
+						// measured only: the property does not speak about byte counters
+						ev.class(&format!("streaming_reader_byte_count_off_by_{}:{}", sr.total_bytes_read() as i64 - b1.len() as i64, tag));
+					}
+				}
+				Err(e) => fail!(format!("decode-failed-streaming:{}", tag), "{} v{}: StreamingReader refused own encoding: {:?}", tag, v, e),
+			}
+		}
+		// canonical-form rejection
+		let mut muts = vec![];
+		x.mutations(v, &b1, &mut muts);
+		for m in &muts {
+			check_mutation::<T>(ctx, v, &b1, m, counting)?;
+		}
+		// trailing byte: measured, never asserted
+		if counting && v == ProtocolVersion::local().0 {
+			let mut t = b1.clone();
+			t.push(0);
+			let (r, _) = dec::<T>(&t, v);
+			ev.class(&format!("trailing_byte_{}:{}", if r.is_ok() { "tolerated" } else { "refused" }, tag));
+		}
+		if counting {
+			ev.class(&format!("roundtrip:{}", tag));
+			if nontriv {
+				ev.nontrivial(&(&tag, v, &shape));
+			}
+		}
+	}
+	if counting {
+		for c in x.classes() {
+			ev.class(&c);
+		}
+		ev.sample(&tag, || json!({"type": tag, "shape": shape, "hex_v_lossless": truncate(&enc(x, x.lossless()).map(|b| hex(&b)).unwrap_or_default(), 300)}));
+	}
 	Ok(())
+}
+
+fn check_hex<T: Obj>(ctx: &Ctx, bytes: &[u8], enc_v: u32) -> PResult {
+	let (r, _) = dec::<T>(bytes, enc_v);
+	let x = r.map_err(|e| Fail::new("harness:replay-decode", format!("{} v{}: {:?}", T::tag(), enc_v, e)))?;
+	check_obj(ctx, &x, false)
+}
+
+// ------------------------------------------------------------------ equality helpers
+
+fn eq<T: PartialEq + std::fmt::Debug>(what: &str, a: &T, b: &T) -> Result<(), String> {
+	if a == b {
+		Ok(())
+	} else {
+		Err(format!("{}: {:?} != {:?}", what, a, b))
+	}
+}
+
+fn same_kernel(a: &TxKernel, b: &TxKernel) -> Result<(), String> {
+	eq("kernel.features", &a.features, &b.features)?;
+	eq("kernel.excess", &a.excess, &b.excess)?;
+	eq("kernel.excess_sig", &a.excess_sig, &b.excess_sig)
+}
+
+fn same_proof(a: &RangeProof, b: &RangeProof) -> Result<(), String> {
+	if a.plen != b.plen {
+		return Err(format!("rangeproof plen {} != {}", a.plen, b.plen));
+	}
+	if a.proof[..] != b.proof[..] {
+		return Err("rangeproof bytes differ".into());
+	}
+	Ok(())
+}
+
+fn same_outid(a: &OutputIdentifier, b: &OutputIdentifier) -> Result<(), String> {
+	eq("features", &a.features, &b.features)?;
+	eq("commit", &a.commit, &b.commit)
+}
+
+fn same_output(a: &Output, b: &Output) -> Result<(), String> {
+	same_outid(&a.identifier, &b.identifier)?;
+	same_proof(&a.proof, &b.proof)
+}
+
+fn same_list<T>(what: &str, a: &[T], b: &[T], f: impl Fn(&T, &T) -> Result<(), String>) -> Result<(), String> {
+	if a.len() != b.len() {
+		return Err(format!("{}: {} entries != {}", what, a.len(), b.len()));
+	}
+	for (i, (x, y)) in a.iter().zip(b).enumerate() {
+		f(x, y).map_err(|e| format!("{}[{}]: {}", what, i, e))?;
+	}
+	Ok(())
+}
+
+fn input_commits(x: &Inputs) -> Vec<Vec<u8>> {
+	let mut v: Vec<Vec<u8>> = match x {
+		Inputs::CommitOnly(c) => c.iter().map(|c| c.commitment().0.to_vec()).collect(),
+		Inputs::FeaturesAndCommit(i) => i.iter().map(|i| i.commit.0.to_vec()).collect(),
+	};
+	v.sort();
+	v
+}
+
+/// Inputs: with features where the version carries them (v <= 2), by
+/// commitment (as a multiset) where it does not.
+fn same_inputs(x: &Inputs, y: &Inputs, v: u32) -> Result<(), String> {
+	if input_commits(x) != input_commits(y) {
+		return Err(format!("input commitments differ: {:?} vs {:?}", x, y));
+	}
+	if v <= 2 {
+		match (x, y) {
+			(Inputs::FeaturesAndCommit(a), Inputs::FeaturesAndCommit(b)) => same_list("inputs", a, b, |p, q| {
+				eq("features", &p.features, &q.features)?;
+				eq("commit", &p.commit, &q.commit)
+			}),
+			(Inputs::CommitOnly(a), _) if a.is_empty() => Ok(()),
+			_ => Err(format!("input features lost at version {}: {:?} vs {:?}", v, x, y)),
+		}
+	} else {
+		Ok(())
+	}
+}
+
+fn same_body(x: &TransactionBody, y: &TransactionBody, v: u32) -> Result<(), String> {
+	same_inputs(&x.inputs, &y.inputs, v)?;
+	same_list("outputs", &x.outputs, &y.outputs, same_output)?;
+	same_list("kernels", &x.kernels, &y.kernels, same_kernel)
+}
+
+fn kshape(k: &KernelFeatures) -> String {
+	match k {
+		KernelFeatures::Plain { fee } => format!("plain{}", if fee.is_zero() { "0" } else if fee.fee_shift() > 0 { "s" } else { "" }),
+		KernelFeatures::Coinbase => "coinbase".into(),
+		KernelFeatures::HeightLocked { fee, .. } => format!("hl{}", if fee.fee_shift() > 0 { "s" } else { "" }),
+		KernelFeatures::NoRecentDuplicate { fee, .. } => format!("nrd{}", if fee.fee_shift() > 0 { "s" } else { "" }),
+	}
+}
+
+fn body_shape(b: &TransactionBody) -> (bool, String) {
+	let mut kinds = 0u8;
+	for k in &b.kernels {
+		kinds |= 1 << k.features.as_u8();
+	}
+	let cb = b.outputs.iter().any(|o| o.is_coinbase());
+	let nt = b.inputs.len() >= 2 || b.outputs.len() >= 2 || b.kernels.len() >= 2;
+	(
+		nt,
+		format!(
+			"{}i{}o{}{}k{}m{:x}",
+			b.inputs.version_str(),
+			b.inputs.len().min(3),
+			b.outputs.len().min(3),
+			if cb { "c" } else { "" },
+			b.kernels.len().min(3),
+			kinds
+		),
+	)
+}
+
+fn body_lossless(b: &TransactionBody) -> u32 {
+	match &b.inputs {
+		Inputs::CommitOnly(c) if !c.is_empty() => 3,
+		_ => 2,
+	}
+}
+
+fn body_unsupported(b: &TransactionBody, v: u32) -> bool {
+	// Inputs::write: CommitOnly, non-empty, version 0..=2 => UnsupportedProtocolVersion
+	matches!(&b.inputs, Inputs::CommitOnly(c) if !c.is_empty()) && v <= 2
+}
+
+// ------------------------------------------------------------------ mutation helpers
+
+/// kernel features (or a kernel) starting at `at`
+fn kernel_mutations(k: &KernelFeatures, v: u32, b: &[u8], at: usize, out: &mut Vec<Mutation>) {
+	for t in [4u8, 0x80, 0xff] {
+		mutate(out, "kernel-feature-tag-unknown", true, b, |m| m[at] = t);
+	}
+	if v <= 1 {
+		let reserved: Range<usize> = match k {
+			KernelFeatures::Plain { .. } => 9..17,
+			KernelFeatures::Coinbase => 1..17,
+			KernelFeatures::HeightLocked { .. } => 0..0,
+			KernelFeatures::NoRecentDuplicate { .. } => 9..15,
+		};
+		if !reserved.is_empty() {
+			for j in [reserved.start, (reserved.start + reserved.end) / 2, reserved.end - 1] {
+				mutate(out, "kernel-reserved-bytes-nonzero", true, b, |m| m[at + j] = 1);
+			}
+		}
+	}
+	if let KernelFeatures::NoRecentDuplicate { .. } = k {
+		let p = at + if v <= 1 { 15 } else { 9 };
+		for h in [0u16, WEEK_HEIGHT as u16 + 1, 0xffff] {
+			mutate(out, "nrd-relative-height-out-of-range", true, b, |m| m[p..p + 2].copy_from_slice(&h.to_be_bytes()));
+		}
+	}
+}
+
+fn output_tag_mutations(b: &[u8], at: usize, out: &mut Vec<Mutation>) {
+	for t in [2u8, 0x81, 0xff] {
+		mutate(out, "output-feature-tag-unknown", true, b, |m| m[at] = t);
+	}
+}
+
+struct ListLayout {
+	count_at: usize,
+	items: Vec<Range<usize>>,
+}
+
+/// swap / duplicate / count-more mutations for one counted list of a body-like encoding
+fn list_mutations(l: &ListLayout, names: (&'static str, &'static str, &'static str), b: &[u8], out: &mut Vec<Mutation>) {
+	let n = l.items.len();
+	for i in 0..n.saturating_sub(1) {
+		let (p, q) = (l.items[i].clone(), l.items[i + 1].clone());
+		if b[p.clone()] == b[q.clone()] {
+			continue;
+		}
+		mutate(out, names.0, true, b, |m| {
+			let mut s = b[q.clone()].to_vec();
+			s.extend_from_slice(&b[p.clone()]);
+			m[p.start..q.end].copy_from_slice(&s);
+		});
+	}
+	if n >= 1 {
+		for i in [0, n - 1] {
+			let r = l.items[i].clone();
+			mutate(out, names.1, true, b, |m| {
+				let item = b[r.clone()].to_vec();
+				let tail = m.split_off(r.end);
+				m.extend_from_slice(&item);
+				m.extend_from_slice(&tail);
+				put64(m, l.count_at, n as u64 + 1);
+			});
+			if n == 1 {
+				break;
+			}
+		}
+	}
+	mutate(out, names.2, false, b, |m| put64(m, l.count_at, n as u64 + 1));
+}
+
+/// Layout of an encoded TransactionBody starting at `start` and running to the end of b.
+fn body_layout(body: &TransactionBody, v: u32, start: usize, b: &[u8]) -> Result<[ListLayout; 3], String> {
+	let n_in = body.inputs.len();
+	let w_in = if v <= 2 { 34 } else { 33 };
+	let mut at = start + 24;
+	let mut lists = vec![];
+	let mut ins = vec![];
+	for _ in 0..n_in {
+		ins.push(at..at + w_in);
+		at += w_in;
+	}
+	lists.push(ListLayout { count_at: start, items: ins });
+	let mut outs = vec![];
+	for o in &body.outputs {
+		let w = enc(o, v).map_err(|e| format!("{:?}", e))?.len();
+		outs.push(at..at + w);
+		at += w;
+	}
+	lists.push(ListLayout { count_at: start + 8, items: outs });
+	let mut ks = vec![];
+	for k in &body.kernels {
+		let w = enc(k, v).map_err(|e| format!("{:?}", e))?.len();
+		ks.push(at..at + w);
+		at += w;
+	}
+	lists.push(ListLayout { count_at: start + 16, items: ks });
+	if at != b.len() {
+		return Err(format!("computed body end {} != encoding length {}", at, b.len()));
+	}
+	for (i, l) in lists.iter().enumerate() {
+		if be64(b, l.count_at) != l.items.len() as u64 {
+			return Err(format!("count field {} holds {} expected {}", i, be64(b, l.count_at), l.items.len()));
+		}
+	}
+	let mut it = lists.into_iter();
+	Ok([it.next().unwrap(), it.next().unwrap(), it.next().unwrap()])
+}
+
+fn body_mutations(body: &TransactionBody, v: u32, start: usize, b: &[u8], out: &mut Vec<Mutation>) {
+	let l = match body_layout(body, v, start, b) {
+		Ok(l) => l,
+		Err(e) => {
+			// reported through a mutation that cannot fail to be flagged
+			out.push(Mutation { rule: "layout-mismatch", bytes: format!("layout: {}", e).into_bytes(), strict: false });
+			return;
+		}
+	};
+	list_mutations(&l[0], ("inputs-unsorted", "inputs-duplicate", "count-more-inputs"), b, out);
+	list_mutations(&l[1], ("outputs-unsorted", "outputs-duplicate", "count-more-outputs"), b, out);
+	list_mutations(&l[2], ("kernels-unsorted", "kernels-duplicate", "count-more-kernels"), b, out);
+	if v <= 2 {
+		if let Some(r) = l[0].items.first() {
+			output_tag_mutations(b, r.start, out);
+		}
+	}
+	if let Some(r) = l[1].items.last() {
+		output_tag_mutations(b, r.start, out);
+	}
+	if let (Some(r), Some(k)) = (l[2].items.first(), body.kernels.first()) {
+		kernel_mutations(&k.features, v, b, r.start, out);
+	}
+}
+
+// ------------------------------------------------------------------ Obj: transaction family
+
+impl Obj for KernelFeatures {
+	fn tag() -> String {
+		"KernelFeatures".into()
+	}
+	fn same(&self, y: &Self, _v: u32) -> Result<(), String> {
+		eq("features", self, y)
+	}
+	fn shape(&self) -> (bool, String) {
+		(!matches!(self, KernelFeatures::Plain { .. }), kshape(self))
+	}
+	fn mutations(&self, v: u32, b: &[u8], out: &mut Vec<Mutation>) {
+		kernel_mutations(self, v, b, 0, out);
+	}
+}
+
+impl Obj for TxKernel {
+	fn tag() -> String {
+		"TxKernel".into()
+	}
+	fn same(&self, y: &Self, _v: u32) -> Result<(), String> {
+		same_kernel(self, y)
+	}
+	fn shape(&self) -> (bool, String) {
+		(!self.is_plain(), kshape(&self.features))
+	}
+	fn id_hash(&self) -> Option<Hash> {
+		Some(self.hash())
+	}
+	fn id_preimage(&self) -> Option<Vec<u8>> {
+		// kernels are hashed in their version-1 form
+		enc(self, 1).ok()
+	}
+	fn mutations(&self, v: u32, b: &[u8], out: &mut Vec<Mutation>) {
+		kernel_mutations(&self.features, v, b, 0, out);
+	}
+	fn classes(&self) -> Vec<String> {
+		vec![format!("kernel_variant:{}", self.features.as_string())]
+	}
+}
+
+impl Obj for Input {
+	fn tag() -> String {
+		"Input".into()
+	}
+	fn same(&self, y: &Self, _v: u32) -> Result<(), String> {
+		eq("features", &self.features, &y.features)?;
+		eq("commit", &self.commit, &y.commit)
+	}
+	fn shape(&self) -> (bool, String) {
+		(self.is_coinbase(), format!("{:?}", self.features))
+	}
+	fn id_hash(&self) -> Option<Hash> {
+		Some(self.hash())
+	}
+	fn id_preimage(&self) -> Option<Vec<u8>> {
+		enc(self, 1).ok()
+	}
+	fn mutations(&self, _v: u32, b: &[u8], out: &mut Vec<Mutation>) {
+		output_tag_mutations(b, 0, out);
+	}
+}
+
+impl Obj for CommitWrapper {
+	fn tag() -> String {
+		"CommitWrapper".into()
+	}
+	fn same(&self, y: &Self, _v: u32) -> Result<(), String> {
+		eq("commit", &self.commitment(), &y.commitment())
+	}
+	fn shape(&self) -> (bool, String) {
+		(false, "commit".into())
+	}
+	fn id_hash(&self) -> Option<Hash> {
+		Some(self.hash())
+	}
+	fn id_preimage(&self) -> Option<Vec<u8>> {
+		enc(self, 1).ok()
+	}
+}
+
+impl Obj for OutputIdentifier {
+	fn tag() -> String {
+		"OutputIdentifier".into()
+	}
+	fn same(&self, y: &Self, _v: u32) -> Result<(), String> {
+		same_outid(self, y)
+	}
+	fn shape(&self) -> (bool, String) {
+		(self.is_coinbase(), format!("{:?}", self.features))
+	}
+	fn id_hash(&self) -> Option<Hash> {
+		Some(self.hash())
+	}
+	fn id_preimage(&self) -> Option<Vec<u8>> {
+		enc(self, 1).ok()
+	}
+	fn mutations(&self, _v: u32, b: &[u8], out: &mut Vec<Mutation>) {
+		output_tag_mutations(b, 0, out);
+	}
+}
+
+impl Obj for Output {
+	fn tag() -> String {
+		"Output".into()
+	}
+	fn same(&self, y: &Self, _v: u32) -> Result<(), String> {
+		same_output(self, y)
+	}
+	fn shape(&self) -> (bool, String) {
+		(self.is_coinbase(), format!("{:?}", self.features()))
+	}
+	fn id_hash(&self) -> Option<Hash> {
+		Some(self.identifier().hash())
+	}
+	fn id_preimage(&self) -> Option<Vec<u8>> {
+		enc(&self.identifier(), 1).ok()
+	}
+	fn mutations(&self, _v: u32, b: &[u8], out: &mut Vec<Mutation>) {
+		output_tag_mutations(b, 0, out);
+	}
+}
+
+impl Obj for RangeProof {
+	fn tag() -> String {
+		"RangeProof".into()
+	}
+	fn same(&self, y: &Self, _v: u32) -> Result<(), String> {
+		same_proof(self, y)
+	}
+	fn shape(&self) -> (bool, String) {
+		(false, "proof675".into())
+	}
+}
+
+/// `Inputs` has a writer only; the reader side is `Readable for Vec<Input>` /
+/// `Vec<CommitWrapper>` chosen by version exactly as `TransactionBody::read` does.
+#[derive(Debug, Clone)]
+pub struct InputsW(Inputs);
+
+impl Writeable for InputsW {
+	fn write<W: Writer>(&self, w: &mut W) -> Result<(), ser::Error> {
+		self.0.write(w)
+	}
+}
+
+impl Readable for InputsW {
+	fn read<R: Reader>(r: &mut R) -> Result<Self, ser::Error> {
+		if r.protocol_version().value() <= 2 {
+			let v: Vec<Input> = Readable::read(r)?;
+			Ok(InputsW(Inputs::FeaturesAndCommit(v)))
+		} else {
+			let v: Vec<CommitWrapper> = Readable::read(r)?;
+			Ok(InputsW(Inputs::CommitOnly(v)))
+		}
+	}
+}
+
+impl Obj for InputsW {
+	fn tag() -> String {
+		"Inputs".into()
+	}
+	fn same(&self, y: &Self, v: u32) -> Result<(), String> {
+		same_inputs(&self.0, &y.0, v)
+	}
+	fn shape(&self) -> (bool, String) {
+		(self.0.len() >= 2, format!("{}n{}", self.0.version_str(), self.0.len().min(3)))
+	}
+	fn lossless(&self) -> u32 {
+		match &self.0 {
+			Inputs::CommitOnly(c) if !c.is_empty() => 3,
+			_ => 2,
+		}
+	}
+	fn unsupported(&self, v: u32) -> bool {
+		matches!(&self.0, Inputs::CommitOnly(c) if !c.is_empty()) && v <= 2
+	}
+}
+
+impl Obj for TransactionBody {
+	fn tag() -> String {
+		"TransactionBody".into()
+	}
+	fn same(&self, y: &Self, v: u32) -> Result<(), String> {
+		same_body(self, y, v)
+	}
+	fn shape(&self) -> (bool, String) {
+		body_shape(self)
+	}
+	fn lossless(&self) -> u32 {
+		body_lossless(self)
+	}
+	fn unsupported(&self, v: u32) -> bool {
+		body_unsupported(self, v)
+	}
+	fn mutations(&self, v: u32, b: &[u8], out: &mut Vec<Mutation>) {
+		body_mutations(self, v, 0, b, out);
+	}
+}
+
+impl Obj for Transaction {
+	fn tag() -> String {
+		"Transaction".into()
+	}
+	fn same(&self, y: &Self, v: u32) -> Result<(), String> {
+		eq("offset", &self.offset, &y.offset)?;
+		same_body(&self.body, &y.body, v)
+	}
+	fn shape(&self) -> (bool, String) {
+		body_shape(&self.body)
+	}
+	fn lossless(&self) -> u32 {
+		body_lossless(&self.body)
+	}
+	fn unsupported(&self, v: u32) -> bool {
+		body_unsupported(&self.body, v)
+	}
+	fn mutations(&self, v: u32, b: &[u8], out: &mut Vec<Mutation>) {
+		body_mutations(&self.body, v, 32, b, out);
+	}
+	fn classes(&self) -> Vec<String> {
+		let b = &self.body;
+		let mut c = vec![format!("tx_inputs_encoding:{}", b.inputs.version_str())];
+		if b.inputs.len() >= 2 && b.outputs.len() >= 2 && b.kernels.len() >= 2 {
+			c.push("tx_with_2plus_of_each".into());
+		}
+		if b.inputs.is_empty() && b.outputs.is_empty() && b.kernels.is_empty() {
+			c.push("tx_empty".into());
+		}
+		c
+	}
+}
+
+// ------------------------------------------------------------------ Obj: headers, proofs, blocks
+
+/// padding-bit and edge-bits violations for a proof whose encoding ends at `end`
+fn proof_mutations(p: &Proof, b: &[u8], end: usize, out: &mut Vec<Mutation>) {
+	let bits = p.edge_bits as usize * global::proofsize();
+	let len = (bits + 7) / 8;
+	let eb_at = end - len - 1;
+	for e in [0u8, 64, 0xff] {
+		mutate(out, "proof-edge-bits-out-of-range", true, b, |m| m[eb_at] = e);
+	}
+	if bits % 8 != 0 {
+		// packed little-endian: the unused bits are the high bits of the last byte
+		for bit in [7usize, bits % 8] {
+			mutate(out, "proof-padding-bit-set", true, b, |m| m[end - 1] |= 1 << bit);
+		}
+	}
+}
+
+fn proof_shape(p: &Proof) -> String {
+	let n = global::proofsize();
+	let sorted = p.nonces.windows(2).all(|w| w[0] <= w[1]);
+	format!("n{}e{}{}{}", n, p.edge_bits, if (p.edge_bits as usize * n) % 8 != 0 { "pad" } else { "" }, if sorted { "" } else { "u" })
+}
+
+impl Obj for Proof {
+	fn tag() -> String {
+		"Proof".into()
+	}
+	fn same(&self, y: &Self, _v: u32) -> Result<(), String> {
+		eq("proof", self, y)
+	}
+	fn shape(&self) -> (bool, String) {
+		(true, proof_shape(self))
+	}
+	fn id_hash(&self) -> Option<Hash> {
+		Some(self.hash())
+	}
+	fn id_preimage(&self) -> Option<Vec<u8>> {
+		// the hash covers the packed nonces without the edge_bits byte
+		enc(self, 1).ok().map(|b| b[1..].to_vec())
+	}
+	fn mutations(&self, _v: u32, b: &[u8], out: &mut Vec<Mutation>) {
+		proof_mutations(self, b, b.len(), out);
+	}
+	fn classes(&self) -> Vec<String> {
+		vec![format!("proof_size_{}_edge_bits:{}", global::proofsize(), self.edge_bits)]
+	}
+}
+
+impl Obj for ProofOfWork {
+	fn tag() -> String {
+		"ProofOfWork".into()
+	}
+	fn same(&self, y: &Self, _v: u32) -> Result<(), String> {
+		eq("pow", self, y)
+	}
+	fn shape(&self) -> (bool, String) {
+		(true, proof_shape(&self.proof))
+	}
+	fn mutations(&self, _v: u32, b: &[u8], out: &mut Vec<Mutation>) {
+		proof_mutations(&self.proof, b, b.len(), out);
+	}
+}
+
+fn header_shape(h: &BlockHeader) -> String {
+	format!("v{}{}{}", h.version.0.min(6), if h.timestamp.timestamp() < 0 { "neg" } else { "" }, proof_shape(&h.pow.proof))
+}
+
+impl Obj for BlockHeader {
+	fn tag() -> String {
+		"BlockHeader".into()
+	}
+	fn same(&self, y: &Self, _v: u32) -> Result<(), String> {
+		eq("header", self, y)
+	}
+	fn shape(&self) -> (bool, String) {
+		(true, header_shape(self))
+	}
+	fn id_hash(&self) -> Option<Hash> {
+		Some(self.hash())
+	}
+	fn id_preimage(&self) -> Option<Vec<u8>> {
+		enc(&self.pow.proof, 1).ok().map(|b| b[1..].to_vec())
+	}
+	fn mutations(&self, _v: u32, b: &[u8], out: &mut Vec<Mutation>) {
+		proof_mutations(&self.pow.proof, b, b.len(), out);
+	}
+}
+
+impl Obj for Block {
+	fn tag() -> String {
+		"Block".into()
+	}
+	fn same(&self, y: &Self, v: u32) -> Result<(), String> {
+		eq("header", &self.header, &y.header)?;
+		same_body(&self.body, &y.body, v)
+	}
+	fn shape(&self) -> (bool, String) {
+		let (nt, s) = body_shape(&self.body);
+		(nt, format!("{}|{}", header_shape(&self.header), s))
+	}
+	fn lossless(&self) -> u32 {
+		body_lossless(&self.body)
+	}
+	fn unsupported(&self, v: u32) -> bool {
+		body_unsupported(&self.body, v)
+	}
+	fn id_hash(&self) -> Option<Hash> {
+		Some(self.hash())
+	}
+	fn id_preimage(&self) -> Option<Vec<u8>> {
+		enc(&self.header.pow.proof, 1).ok().map(|b| b[1..].to_vec())
+	}
+	fn mutations(&self, v: u32, b: &[u8], out: &mut Vec<Mutation>) {
+		if let Ok(h) = enc(&self.header, v) {
+			proof_mutations(&self.header.pow.proof, b, h.len(), out);
+			body_mutations(&self.body, v, h.len(), b, out);
+		}
+	}
+}
+
+impl Obj for CompactBlock {
+	fn tag() -> String {
+		"CompactBlock".into()
+	}
+	fn same(&self, y: &Self, _v: u32) -> Result<(), String> {
+		eq("header", &self.header, &y.header)?;
+		eq("nonce", &self.nonce, &y.nonce)?;
+		same_list("out_full", self.out_full(), y.out_full(), same_output)?;
+		same_list("kern_full", self.kern_full(), y.kern_full(), same_kernel)?;
+		same_list("kern_ids", self.kern_ids(), y.kern_ids(), |a, b| {
+			if a.as_ref() == b.as_ref() {
+				Ok(())
+			} else {
+				Err(format!("{:?} != {:?}", a, b))
+			}
+		})
+	}
+	fn shape(&self) -> (bool, String) {
+		let nt = self.out_full().len() >= 2 || self.kern_full().len() >= 2 || self.kern_ids().len() >= 2;
+		(nt, format!("o{}k{}i{}", self.out_full().len().min(3), self.kern_full().len().min(3), self.kern_ids().len().min(3)))
+	}
+	fn id_hash(&self) -> Option<Hash> {
+		Some(self.hash())
+	}
+	fn id_preimage(&self) -> Option<Vec<u8>> {
+		enc(&self.header.pow.proof, 1).ok().map(|b| b[1..].to_vec())
+	}
+	fn mutations(&self, v: u32, b: &[u8], out: &mut Vec<Mutation>) {
+		let Ok(h) = enc(&self.header, v) else { return };
+		let start = h.len() + 8;
+		let mut at = start + 24;
+		let mut lists = vec![];
+		let mut items = vec![];
+		for o in self.out_full() {
+			let w = enc(o, v).map(|b| b.len()).unwrap_or(0);
+			items.push(at..at + w);
+			at += w;
+		}
+		lists.push(ListLayout { count_at: start, items });
+		let mut items = vec![];
+		for k in self.kern_full() {
+			let w = enc(k, v).map(|b| b.len()).unwrap_or(0);
+			items.push(at..at + w);
+			at += w;
+		}
+		lists.push(ListLayout { count_at: start + 8, items });
+		let mut items = vec![];
+		for _ in self.kern_ids() {
+			items.push(at..at + 6);
+			at += 6;
+		}
+		lists.push(ListLayout { count_at: start + 16, items });
+		if at != b.len() {
+			out.push(Mutation { rule: "layout-mismatch", bytes: format!("compact block end {} != {}", at, b.len()).into_bytes(), strict: false });
+			return;
+		}
+		list_mutations(&lists[0], ("cb-outputs-unsorted", "cb-outputs-duplicate", "count-more-cb-outputs"), b, out);
+		list_mutations(&lists[1], ("cb-kernels-unsorted", "cb-kernels-duplicate", "count-more-cb-kernels"), b, out);
+		list_mutations(&lists[2], ("cb-shortids-unsorted", "cb-shortids-duplicate", "count-more-cb-shortids"), b, out);
+	}
+}
+
+impl Obj for HeaderEntry {
+	fn tag() -> String {
+		"HeaderEntry".into()
+	}
+	fn same(&self, y: &Self, _v: u32) -> Result<(), String> {
+		// fields are private: the derived Debug output lists all of them
+		eq("entry", &format!("{:?}", self), &format!("{:?}", y))
+	}
+	fn shape(&self) -> (bool, String) {
+		let s = format!("{:?}", self);
+		(s.contains("is_secondary: true"), if s.contains("is_secondary: true") { "secondary".into() } else { "primary".into() })
+	}
+}
+
+impl Obj for Tip {
+	fn tag() -> String {
+		"Tip".into()
+	}
+	fn same(&self, y: &Self, _v: u32) -> Result<(), String> {
+		eq("tip", self, y)
+	}
+	fn shape(&self) -> (bool, String) {
+		(false, "tip".into())
+	}
+}
+
+impl Obj for CommitPos {
+	fn tag() -> String {
+		"CommitPos".into()
+	}
+	fn same(&self, y: &Self, _v: u32) -> Result<(), String> {
+		eq("commitpos", self, y)
+	}
+	fn shape(&self) -> (bool, String) {
+		(false, "pos".into())
+	}
+}
+
+impl Obj for BlockSums {
+	fn tag() -> String {
+		"BlockSums".into()
+	}
+	fn same(&self, y: &Self, _v: u32) -> Result<(), String> {
+		eq("utxo_sum", &self.utxo_sum, &y.utxo_sum)?;
+		eq("kernel_sum", &self.kernel_sum, &y.kernel_sum)
+	}
+	fn shape(&self) -> (bool, String) {
+		(false, "sums".into())
+	}
+}
+
+impl Obj for MerkleProof {
+	fn tag() -> String {
+		"MerkleProof".into()
+	}
+	fn same(&self, y: &Self, _v: u32) -> Result<(), String> {
+		eq("merkle proof", self, y)
+	}
+	fn shape(&self) -> (bool, String) {
+		(self.path.len() >= 2, format!("p{}", self.path.len().min(4)))
+	}
+	fn mutations(&self, _v: u32, b: &[u8], out: &mut Vec<Mutation>) {
+		let n = self.path.len() as u64;
+		mutate(out, "count-more-merkle-path", true, b, |m| put64(m, 8, n + 1));
+	}
+}
+
+/// `Headers` has a writer only (the node reads it through the streaming
+/// codec as untrusted headers); read here as count + plain `BlockHeader`s.
+pub struct HeadersW(Headers);
+
+impl Writeable for HeadersW {
+	fn write<W: Writer>(&self, w: &mut W) -> Result<(), ser::Error> {
+		self.0.write(w)
+	}
+}
+
+impl Readable for HeadersW {
+	fn read<R: Reader>(r: &mut R) -> Result<Self, ser::Error> {
+		let n = r.read_u16()?;
+		let mut headers = vec![];
+		for _ in 0..n {
+			headers.push(BlockHeader::read(r)?);
+		}
+		Ok(HeadersW(Headers { headers }))
+	}
+}
+
+impl Obj for HeadersW {
+	fn tag() -> String {
+		"Headers".into()
+	}
+	fn same(&self, y: &Self, _v: u32) -> Result<(), String> {
+		same_list("headers", &self.0.headers, &y.0.headers, |a, b| eq("header", a, b))
+	}
+	fn shape(&self) -> (bool, String) {
+		(self.0.headers.len() >= 2, format!("h{}n{}", self.0.headers.len().min(4), global::proofsize()))
+	}
+	fn mutations(&self, _v: u32, b: &[u8], out: &mut Vec<Mutation>) {
+		let n = self.0.headers.len() as u16;
+		mutate(out, "count-more-headers", true, b, |m| m[0..2].copy_from_slice(&(n + 1).to_be_bytes()));
+		if let Some(h) = self.0.headers.last() {
+			proof_mutations(&h.pow.proof, b, b.len(), out);
+		}
+	}
+}
+
+// ------------------------------------------------------------------ Obj: segments
+
+impl Obj for SegmentIdentifier {
+	fn tag() -> String {
+		"SegmentIdentifier".into()
+	}
+	fn same(&self, y: &Self, _v: u32) -> Result<(), String> {
+		eq("segment id", self, y)
+	}
+	fn shape(&self) -> (bool, String) {
+		(false, "id".into())
+	}
+}
+
+impl Obj for SegmentProof {
+	fn tag() -> String {
+		"SegmentProof".into()
+	}
+	fn same(&self, y: &Self, _v: u32) -> Result<(), String> {
+		eq("segment proof", self, y)
+	}
+	fn shape(&self) -> (bool, String) {
+		(self.size() >= 2, format!("p{}", self.size().min(4)))
+	}
+	fn mutations(&self, _v: u32, b: &[u8], out: &mut Vec<Mutation>) {
+		let n = self.size() as u64;
+		mutate(out, "count-more-segment-proof", true, b, |m| put64(m, 0, n + 1));
+	}
+}
+
+fn position_mutations(b: &[u8], at: usize, n: usize, names: (&'static str, &'static str, &'static str), out: &mut Vec<Mutation>) {
+	for i in 0..n.saturating_sub(1) {
+		let (p, q) = (at + 8 * i, at + 8 * (i + 1));
+		mutate(out, names.0, true, b, |m| {
+			let a = be64(b, p);
+			let c = be64(b, q);
+			put64(m, p, c);
+			put64(m, q, a);
+		});
+		mutate(out, names.1, true, b, |m| put64(m, q, be64(b, p)));
+	}
+	if n >= 1 {
+		mutate(out, names.2, true, b, |m| put64(m, at, 0));
+	}
+}
+
+impl<T: Obj + Clone + std::fmt::Debug> Obj for Segment<T> {
+	fn tag() -> String {
+		format!("Segment<{}>", T::tag())
+	}
+	fn same(&self, y: &Self, v: u32) -> Result<(), String> {
+		let (i1, hp1, h1, lp1, l1, p1) = self.clone().parts();
+		let (i2, hp2, h2, lp2, l2, p2) = y.clone().parts();
+		eq("identifier", &i1, &i2)?;
+		eq("hash_pos", &hp1, &hp2)?;
+		eq("hashes", &h1, &h2)?;
+		eq("leaf_pos", &lp1, &lp2)?;
+		same_list("leaf_data", &l1, &l2, |a, b| a.same(b, v))?;
+		eq("proof", &p1, &p2)
+	}
+	fn shape(&self) -> (bool, String) {
+		let nh = self.hash_iter().count();
+		let nl = self.leaf_iter().count();
+		(nh >= 2 || nl >= 2, format!("h{}l{}p{}", nh.min(3), nl.min(3), self.proof().size().min(3)))
+	}
+	fn mutations(&self, _v: u32, b: &[u8], out: &mut Vec<Mutation>) {
+		let nh = self.hash_iter().count();
+		let nl = self.leaf_iter().count();
+		let np = self.proof().size();
+		let nl_at = 17 + 40 * nh;
+		let proof_at = b.len() - 8 - 32 * np;
+		if be64(b, 9) != nh as u64 || be64(b, nl_at) != nl as u64 || be64(b, proof_at) != np as u64 {
+			out.push(Mutation { rule: "layout-mismatch", bytes: b"segment count fields not where expected".to_vec(), strict: false });
+			return;
+		}
+		position_mutations(b, 17, nh, ("segment-hash-pos-unsorted", "segment-hash-pos-repeated", "segment-hash-pos-zero"), out);
+		position_mutations(b, nl_at + 8, nl, ("segment-leaf-pos-unsorted", "segment-leaf-pos-repeated", "segment-leaf-pos-zero"), out);
+		mutate(out, "count-more-segment-hashes", false, b, |m| put64(m, 9, nh as u64 + 1));
+		mutate(out, "count-more-segment-leaves", false, b, |m| put64(m, nl_at, nl as u64 + 1));
+		mutate(out, "count-more-segment-proof", true, b, |m| put64(m, proof_at, np as u64 + 1));
+	}
+}
+
+/// (offset of block, n_chunks, mode, index count) for each block of an encoded BitmapSegment
+fn bitmap_blocks(b: &[u8]) -> Option<Vec<(usize, usize, u8, usize)>> {
+	let n = u16::from_be_bytes([*b.get(9)?, *b.get(10)?]) as usize;
+	let mut at = 11;
+	let mut v = vec![];
+	for _ in 0..n {
+		let nc = *b.get(at)? as usize;
+		let mode = *b.get(at + 1)?;
+		let (cnt, len) = match mode {
+			0 => (0, nc * 128),
+			1 | 2 => {
+				let c = u16::from_be_bytes([*b.get(at + 2)?, *b.get(at + 3)?]) as usize;
+				(c, 2 + 2 * c)
+			}
+			_ => return None,
+		};
+		v.push((at, nc, mode, cnt));
+		at += 2 + len;
+	}
+	if at > b.len() {
+		return None;
+	}
+	Some(v)
+}
+
+impl Obj for BitmapSegment {
+	fn tag() -> String {
+		"BitmapSegment".into()
+	}
+	fn same(&self, y: &Self, _v: u32) -> Result<(), String> {
+		if self == y {
+			Ok(())
+		} else {
+			Err("bitmap segments differ".into())
+		}
+	}
+	fn shape(&self) -> (bool, String) {
+		let b = enc(self, 1).unwrap_or_default();
+		let blocks = bitmap_blocks(&b).unwrap_or_default();
+		let modes: String = blocks.iter().take(3).map(|x| char::from(b'0' + x.2)).collect();
+		let thr = blocks.iter().any(|x| (4090..4096).contains(&x.3));
+		(blocks.len() >= 2 || modes != "1", format!("b{}m{}{}", blocks.len().min(3), modes, if thr { "t" } else { "" }))
+	}
+	fn mutations(&self, _v: u32, b: &[u8], out: &mut Vec<Mutation>) {
+		let Some(blocks) = bitmap_blocks(b) else {
+			out.push(Mutation { rule: "layout-mismatch", bytes: b"bitmap segment blocks not parseable".to_vec(), strict: false });
+			return;
+		};
+		let n = blocks.len() as u16;
+		for &(at, nc, mode, cnt) in [blocks.first(), blocks.last()].into_iter().flatten() {
+			for t in [3u8, 0x80, 0xff] {
+				mutate(out, "bitmap-block-mode-unknown", true, b, |m| m[at + 1] = t);
+			}
+			if mode != 0 && cnt >= 1 && nc < 64 {
+				mutate(out, "bitmap-index-out-of-range", true, b, |m| m[at + 4..at + 6].copy_from_slice(&0xffffu16.to_be_bytes()));
+			}
+		}
+		mutate(out, "bitmap-zero-blocks", true, b, |m| m[9..11].copy_from_slice(&0u16.to_be_bytes()));
+		mutate(out, "count-more-bitmap-blocks", false, b, |m| m[9..11].copy_from_slice(&(n + 1).to_be_bytes()));
+	}
+	fn classes(&self) -> Vec<String> {
+		let b = enc(self, 1).unwrap_or_default();
+		let mut c = vec![];
+		for (_, nc, mode, cnt) in bitmap_blocks(&b).unwrap_or_default() {
+			c.push(format!("bitmap_block_mode:{}", ["raw", "positive", "negative"][mode as usize % 3]));
+			if mode != 0 && cnt == 4095 {
+				c.push(format!("bitmap_block_at_threshold:{}:4095", ["raw", "positive", "negative"][mode as usize % 3]));
+			}
+			if mode == 0 && nc < 64 {
+				c.push("bitmap_block_raw_partial".into());
+			}
+		}
+		c
+	}
+}
+
+fn same_hash(what: &str, a: &Hash, b: &Hash) -> Result<(), String> {
+	eq(what, a, b)
+}
+
+impl Obj for SegmentRequest {
+	fn tag() -> String {
+		"SegmentRequest".into()
+	}
+	fn same(&self, y: &Self, _v: u32) -> Result<(), String> {
+		same_hash("block_hash", &self.block_hash, &y.block_hash)?;
+		eq("identifier", &self.identifier, &y.identifier)
+	}
+	fn shape(&self) -> (bool, String) {
+		(false, "req".into())
+	}
+}
+
+impl<T: Obj + Clone + std::fmt::Debug> Obj for SegmentResponse<T> {
+	fn tag() -> String {
+		format!("SegmentResponse<{}>", T::tag())
+	}
+	fn same(&self, y: &Self, v: u32) -> Result<(), String> {
+		same_hash("block_hash", &self.block_hash, &y.block_hash)?;
+		self.segment.same(&y.segment, v)
+	}
+	fn shape(&self) -> (bool, String) {
+		self.segment.shape()
+	}
+}
+
+impl Obj for OutputSegmentResponse {
+	fn tag() -> String {
+		"OutputSegmentResponse".into()
+	}
+	fn same(&self, y: &Self, v: u32) -> Result<(), String> {
+		self.response.same(&y.response, v)?;
+		same_hash("output_bitmap_root", &self.output_bitmap_root, &y.output_bitmap_root)
+	}
+	fn shape(&self) -> (bool, String) {
+		self.response.shape()
+	}
+}
+
+impl Obj for OutputBitmapSegmentResponse {
+	fn tag() -> String {
+		"OutputBitmapSegmentResponse".into()
+	}
+	fn same(&self, y: &Self, v: u32) -> Result<(), String> {
+		same_hash("block_hash", &self.block_hash, &y.block_hash)?;
+		self.segment.same(&y.segment, v)?;
+		same_hash("output_root", &self.output_root, &y.output_root)
+	}
+	fn shape(&self) -> (bool, String) {
+		self.segment.shape()
+	}
+}
+
+// ------------------------------------------------------------------ Obj: handshake and sync messages
+
+fn same_addr(what: &str, a: &PeerAddr, b: &PeerAddr) -> Result<(), String> {
+	// PeerAddr's own == ignores the port of non-loopback addresses
+	eq(what, &a.0, &b.0)
+}
+
+impl Obj for PeerAddr {
+	fn tag() -> String {
+		"PeerAddr".into()
+	}
+	fn same(&self, y: &Self, _v: u32) -> Result<(), String> {
+		same_addr("addr", self, y)
+	}
+	fn shape(&self) -> (bool, String) {
+		(self.0.is_ipv6(), if self.0.is_ipv6() { "v6".into() } else { "v4".into() })
+	}
+}
+
+impl Obj for PeerAddrs {
+	fn tag() -> String {
+		"PeerAddrs".into()
+	}
+	fn same(&self, y: &Self, _v: u32) -> Result<(), String> {
+		same_list("peers", &self.peers, &y.peers, |a, b| same_addr("addr", a, b))
+	}
+	fn shape(&self) -> (bool, String) {
+		let v6 = self.peers.iter().any(|p| p.0.is_ipv6());
+		(self.peers.len() >= 2, format!("n{}{}", self.peers.len().min(4), if v6 { "v6" } else { "" }))
+	}
+	fn mutations(&self, _v: u32, b: &[u8], out: &mut Vec<Mutation>) {
+		let n = self.peers.len() as u32;
+		mutate(out, "count-more-peer-addrs", true, b, |m| m[0..4].copy_from_slice(&(n + 1).to_be_bytes()));
+	}
+}
+
+impl Obj for Hand {
+	fn tag() -> String {
+		"Hand".into()
+	}
+	fn same(&self, y: &Self, _v: u32) -> Result<(), String> {
+		eq("version", &self.version, &y.version)?;
+		eq("capabilities", &self.capabilities, &y.capabilities)?;
+		eq("nonce", &self.nonce, &y.nonce)?;
+		eq("genesis", &self.genesis, &y.genesis)?;
+		eq("total_difficulty", &self.total_difficulty, &y.total_difficulty)?;
+		same_addr("sender_addr", &self.sender_addr, &y.sender_addr)?;
+		same_addr("receiver_addr", &self.receiver_addr, &y.receiver_addr)?;
+		eq("user_agent", &self.user_agent, &y.user_agent)
+	}
+	fn shape(&self) -> (bool, String) {
+		let v6 = self.sender_addr.0.is_ipv6() || self.receiver_addr.0.is_ipv6();
+		(v6 || !self.user_agent.is_ascii(), format!("{}{}", if v6 { "v6" } else { "v4" }, if self.user_agent.is_ascii() { "" } else { "u" }))
+	}
+	fn mutations(&self, _v: u32, b: &[u8], out: &mut Vec<Mutation>) {
+		let n = self.user_agent.len() as u64;
+		let at = b.len() - 32 - self.user_agent.len() - 8;
+		if be64(b, at) == n {
+			mutate(out, "count-more-string-bytes", true, b, |m| put64(m, at, n + 1));
+		}
+	}
+}
+
+impl Obj for Shake {
+	fn tag() -> String {
+		"Shake".into()
+	}
+	fn same(&self, y: &Self, _v: u32) -> Result<(), String> {
+		eq("version", &self.version, &y.version)?;
+		eq("capabilities", &self.capabilities, &y.capabilities)?;
+		eq("genesis", &self.genesis, &y.genesis)?;
+		eq("total_difficulty", &self.total_difficulty, &y.total_difficulty)?;
+		eq("user_agent", &self.user_agent, &y.user_agent)
+	}
+	fn shape(&self) -> (bool, String) {
+		(!self.user_agent.is_ascii(), if self.user_agent.is_ascii() { "a".into() } else { "u".into() })
+	}
+	fn mutations(&self, _v: u32, b: &[u8], out: &mut Vec<Mutation>) {
+		let n = self.user_agent.len() as u64;
+		mutate(out, "count-more-string-bytes", true, b, |m| put64(m, 16, n + 1));
+	}
+}
+
+macro_rules! simple_obj {
+	($t:ty, $tag:expr, |$a:ident, $b:ident| $same:block) => {
+		impl Obj for $t {
+			fn tag() -> String {
+				$tag.into()
+			}
+			fn same(&self, y: &Self, _v: u32) -> Result<(), String> {
+				let ($a, $b) = (self, y);
+				$same
+			}
+			fn shape(&self) -> (bool, String) {
+				(false, "msg".into())
+			}
+		}
+	};
+}
+
+simple_obj!(Ping, "Ping", |a, b| {
+	eq("total_difficulty", &a.total_difficulty, &b.total_difficulty)?;
+	eq("height", &a.height, &b.height)
+});
+simple_obj!(Pong, "Pong", |a, b| {
+	eq("total_difficulty", &a.total_difficulty, &b.total_difficulty)?;
+	eq("height", &a.height, &b.height)
+});
+simple_obj!(GetPeerAddrs, "GetPeerAddrs", |a, b| { eq("capabilities", &a.capabilities, &b.capabilities) });
+simple_obj!(TxHashSetRequest, "TxHashSetRequest", |a, b| {
+	eq("hash", &a.hash, &b.hash)?;
+	eq("height", &a.height, &b.height)
+});
+simple_obj!(TxHashSetArchive, "TxHashSetArchive", |a, b| {
+	eq("hash", &a.hash, &b.hash)?;
+	eq("height", &a.height, &b.height)?;
+	eq("bytes", &a.bytes, &b.bytes)
+});
+
+impl Obj for PeerError {
+	fn tag() -> String {
+		"PeerError".into()
+	}
+	fn same(&self, y: &Self, _v: u32) -> Result<(), String> {
+		eq("code", &self.code, &y.code)?;
+		eq("message", &self.message, &y.message)
+	}
+	fn shape(&self) -> (bool, String) {
+		(!self.message.is_ascii(), if self.message.is_ascii() { "a".into() } else { "u".into() })
+	}
+	fn mutations(&self, _v: u32, b: &[u8], out: &mut Vec<Mutation>) {
+		let n = self.message.len() as u64;
+		mutate(out, "count-more-string-bytes", true, b, |m| put64(m, 4, n + 1));
+	}
+}
+
+impl Obj for BanReason {
+	fn tag() -> String {
+		"BanReason".into()
+	}
+	fn same(&self, y: &Self, _v: u32) -> Result<(), String> {
+		eq("ban_reason", &self.ban_reason, &y.ban_reason)
+	}
+	fn shape(&self) -> (bool, String) {
+		(self.ban_reason != ReasonForBan::None, format!("{:?}", self.ban_reason))
+	}
+	fn mutations(&self, _v: u32, b: &[u8], out: &mut Vec<Mutation>) {
+		for code in [8i32, -1, i32::MAX] {
+			mutate(out, "ban-reason-code-unknown", true, b, |m| m[0..4].copy_from_slice(&code.to_be_bytes()));
+		}
+	}
+}
+
+impl Obj for Locator {
+	fn tag() -> String {
+		"Locator".into()
+	}
+	fn same(&self, y: &Self, _v: u32) -> Result<(), String> {
+		eq("hashes", &self.hashes, &y.hashes)
+	}
+	fn shape(&self) -> (bool, String) {
+		(self.hashes.len() >= 2, format!("n{}", self.hashes.len().min(4)))
+	}
+	fn mutations(&self, _v: u32, b: &[u8], out: &mut Vec<Mutation>) {
+		let n = self.hashes.len() as u8;
+		mutate(out, "count-more-locator-hashes", true, b, |m| m[0] = n + 1);
+	}
+}
+
+/// `MsgHeader` is read through `MsgHeaderWrapper`; a header of an unknown
+/// type is not a `MsgHeader` value.
+pub struct MsgHeaderW(MsgHeader);
+
+impl Writeable for MsgHeaderW {
+	fn write<W: Writer>(&self, w: &mut W) -> Result<(), ser::Error> {
+		self.0.write(w)
+	}
+}
+
+impl Readable for MsgHeaderW {
+	fn read<R: Reader>(r: &mut R) -> Result<Self, ser::Error> {
+		match MsgHeaderWrapper::read(r)? {
+			MsgHeaderWrapper::Known(h) => Ok(MsgHeaderW(h)),
+			MsgHeaderWrapper::Unknown(_, _) => Err(ser::Error::CorruptedData),
+		}
+	}
+}
+
+impl Obj for MsgHeaderW {
+	fn tag() -> String {
+		"MsgHeader".into()
+	}
+	fn same(&self, y: &Self, _v: u32) -> Result<(), String> {
+		eq("msg_type", &self.0.msg_type, &y.0.msg_type)?;
+		eq("msg_len", &self.0.msg_len, &y.0.msg_len)
+	}
+	fn shape(&self) -> (bool, String) {
+		(self.0.msg_type != Type::Error, format!("{:?}", self.0.msg_type))
+	}
+	fn mutations(&self, _v: u32, b: &[u8], out: &mut Vec<Mutation>) {
+		mutate(out, "msg-magic-wrong", true, b, |m| m[0] ^= 0x20);
+		mutate(out, "msg-magic-wrong", true, b, |m| m[1] ^= 0x01);
+	}
+}
+
+// ------------------------------------------------------------------ specs (what proptest generates) and builders
+
+#[derive(Clone, Debug)]
+pub struct KSpec {
+	kind: u8,
+	/// 0 = FeeFields::zero() (as in TxKernel::empty())
+	fee: u64,
+	shift: u8,
+	lock: u64,
+	rel: u16,
+	/// index into COMMITS; 255 = the all-zero excess of TxKernel::with_features
+	excess: u8,
+	sig: u64,
+}
+
+impl KSpec {
+	fn features(&self) -> KernelFeatures {
+		let fee = if self.fee == 0 { FeeFields::zero() } else { FeeFields::new(self.shift as u64, self.fee).expect("fee fields") };
+		match self.kind {
+			0 => KernelFeatures::Plain { fee },
+			1 => KernelFeatures::Coinbase,
+			2 => KernelFeatures::HeightLocked { fee, lock_height: self.lock },
+			_ => KernelFeatures::NoRecentDuplicate { fee, relative_height: NRDRelativeHeight::new(self.rel as u64).expect("nrd height") },
+		}
+	}
+	fn excess(&self) -> Commitment {
+		if self.excess == 255 {
+			Commitment::from_vec(vec![0; 33])
+		} else {
+			COMMITS[self.excess as usize]
+		}
+	}
+	fn kernel(&self) -> TxKernel {
+		let s = expand(self.sig, 1, 64);
+		let mut a = [0u8; 64];
+		a.copy_from_slice(&s);
+		TxKernel { features: self.features(), excess: self.excess(), excess_sig: Signature::from_raw_data(&a).expect("sig") }
+	}
+	fn from_seed(seed: u64, i: u64) -> KSpec {
+		let x = u64_from(seed, (i % 200) as u8);
+		KSpec {
+			kind: (x % 4) as u8,
+			fee: 1 + (x >> 8) % ((1u64 << 40) - 1),
+			shift: ((x >> 3) % 16) as u8,
+			lock: x.rotate_left(17),
+			rel: 1 + ((x >> 20) % WEEK_HEIGHT) as u16,
+			excess: ((x >> 50) % 255) as u8,
+			sig: x,
+		}
+	}
+}
+
+fn kspec() -> impl Strategy<Value = KSpec> {
+	(
+		0u8..4,
+		prop_oneof![6 => 1u64..(1u64 << 40), 1 => Just(1u64), 1 => Just((1u64 << 40) - 1), 1 => Just(0u64)],
+		prop_oneof![2 => Just(0u8), 1 => 0u8..16, 1 => Just(15u8)],
+		prop_oneof![3 => any::<u64>(), 1 => Just(0u64), 1 => Just(u64::MAX), 1 => 0u64..1000],
+		prop_oneof![4 => 1u16..=(WEEK_HEIGHT as u16), 1 => Just(1u16), 1 => Just(WEEK_HEIGHT as u16)],
+		any::<u8>(),
+		any::<u64>(),
+	)
+		.prop_map(|(kind, fee, shift, lock, rel, excess, sig)| KSpec { kind, fee, shift, lock, rel, excess, sig })
+}
+
+#[derive(Clone, Debug)]
+pub struct OSpec {
+	/// real bulletproof from the asset library, or synthetic proof bytes of the real length
+	real: bool,
+	idx: u8,
+	cb: bool,
+	pseed: u64,
+}
+
+impl OSpec {
+	fn key(&self) -> (bool, u8) {
+		(self.real, if self.real { self.idx % 24 } else { self.idx % 128 })
+	}
+	fn is_cb(&self) -> bool {
+		if self.real {
+			universe()[(self.idx % 24) as usize].cb
+		} else {
+			self.cb
+		}
+	}
+	fn proof(seed: u64) -> RangeProof {
+		let b = expand(seed, 2, PROOF_LEN);
+		let mut proof = [0u8; PROOF_LEN];
+		proof.copy_from_slice(&b);
+		RangeProof { proof, plen: PROOF_LEN }
+	}
+	fn output(&self) -> Output {
+		if self.real {
+			LIB.output(&universe()[(self.idx % 24) as usize])
+		} else {
+			let f = if self.cb { OutputFeatures::Coinbase } else { OutputFeatures::Plain };
+			Output::new(f, COMMITS[128 + (self.idx % 128) as usize], OSpec::proof(self.pseed))
+		}
+	}
+}
+
+fn ospec() -> impl Strategy<Value = OSpec> {
+	(prop::bool::weighted(0.4), any::<u8>(), any::<bool>(), any::<u64>()).prop_map(|(real, idx, cb, pseed)| OSpec { real, idx, cb, pseed })
+}
+
+#[derive(Clone, Debug)]
+pub struct BodySpec {
+	inputs: Vec<(u8, bool)>,
+	commit_only: bool,
+	outs: Vec<OSpec>,
+	kernels: Vec<KSpec>,
+	offset: u64,
+}
+
+fn bodyspec() -> impl Strategy<Value = BodySpec> {
+	(
+		prop::collection::vec((0u8..128, any::<bool>()), 0..=6),
+		any::<bool>(),
+		prop::collection::vec(ospec(), 0..=4),
+		prop::collection::vec(kspec(), 0..=4),
+		any::<u64>(),
+	)
+		.prop_map(|(inputs, commit_only, outs, kernels, offset)| BodySpec { inputs, commit_only, outs, kernels, offset })
+}
+
+impl BodySpec {
+	/// distinct entries; `tx_rules`: no coinbase outputs / kernels (Transaction::read refuses them)
+	fn parts(&self, tx_rules: bool) -> (Inputs, Vec<Output>, Vec<TxKernel>) {
+		let mut seen = std::collections::BTreeSet::new();
+		let mut ins = vec![];
+		for (i, cb) in &self.inputs {
+			if seen.insert(*i) {
+				ins.push(Input::new(if *cb { OutputFeatures::Coinbase } else { OutputFeatures::Plain }, COMMITS[*i as usize]));
+			}
+		}
+		let inputs = if self.commit_only {
+			let w: Vec<CommitWrapper> = ins.iter().map(CommitWrapper::from).collect();
+			Inputs::from(&w[..])
+		} else {
+			Inputs::from(&ins[..])
+		};
+		let mut seen = std::collections::BTreeSet::new();
+		let mut outs = vec![];
+		for o in &self.outs {
+			if tx_rules && o.is_cb() {
+				continue;
+			}
+			if seen.insert(o.key()) {
+				outs.push(o.output());
+			}
+		}
+		let mut seen = std::collections::BTreeSet::new();
+		let mut ks = vec![];
+		for k in &self.kernels {
+			let mut k = k.clone();
+			if tx_rules && k.kind == 1 {
+				k.kind = 0;
+			}
+			if seen.insert(k.excess) {
+				ks.push(k.kernel());
+			}
+		}
+		(inputs, outs, ks)
+	}
+	fn tx(&self) -> Transaction {
+		let (i, o, k) = self.parts(true);
+		Transaction::new(i, &o, &k).with_offset(BlindingFactor::from_slice(&expand(self.offset, 3, 32)))
+	}
+	fn body(&self) -> TransactionBody {
+		let (i, o, k) = self.parts(false);
+		TransactionBody::init(i, &o, &k, false).expect("init body")
+	}
+	fn inputs(&self) -> InputsW {
+		InputsW(self.body().inputs)
+	}
+}
+
+/// bounds `read_block_header` documents for the timestamp
+fn ts_bounds() -> (i64, i64) {
+	(
+		chrono::NaiveDate::MIN.and_hms_opt(0, 0, 0).unwrap().and_utc().timestamp(),
+		chrono::NaiveDate::MAX.and_hms_opt(0, 0, 0).unwrap().and_utc().timestamp(),
+	)
+}
+
+#[derive(Clone, Debug)]
+pub struct PrSpec {
+	mainnet: bool,
+	edge_bits: u8,
+	nseed: u64,
+	sorted: bool,
+}
+
+impl PrSpec {
+	/// chain type must already be set (proof size 8 or 42)
+	fn proof(&self) -> Proof {
+		let n = global::proofsize();
+		// smallest edge_bits whose packed proof is at least 8 bytes (Proof::read refuses shorter ones)
+		let min_eb: u8 = if n == 8 { 8 } else { 2 };
+		let eb = min_eb + self.edge_bits % (64 - min_eb);
+		let mask = (1u64 << eb) - 1;
+		let raw = expand(self.nseed, 4, 8 * n);
+		let mut nonces: Vec<u64> = (0..n).map(|i| be64(&raw, 8 * i) & mask).collect();
+		if self.nseed % 7 == 0 {
+			nonces[n - 1] = mask;
+		}
+		if self.sorted {
+			nonces.sort();
+		}
+		Proof { edge_bits: eb, nonces }
+	}
+}
+
+fn prspec() -> impl Strategy<Value = PrSpec> {
+	(any::<bool>(), prop_oneof![3 => any::<u8>(), 1 => Just(0u8), 1 => Just(255u8)], any::<u64>(), any::<bool>())
+		.prop_map(|(mainnet, edge_bits, nseed, sorted)| PrSpec { mainnet, edge_bits, nseed, sorted })
+}
+
+#[derive(Clone, Debug)]
+pub struct HSpec {
+	version: u16,
+	height: u64,
+	ts: i64,
+	seed: u64,
+	out_size: u64,
+	kern_size: u64,
+	td: u64,
+	scaling: u32,
+	nonce: u64,
+	proof: PrSpec,
+}
+
+fn u64_edges() -> impl Strategy<Value = u64> {
+	prop_oneof![4 => any::<u64>(), 1 => Just(0u64), 1 => Just(u64::MAX), 2 => 0u64..100_000]
+}
+
+fn hspec() -> impl Strategy<Value = HSpec> {
+	let (lo, hi) = ts_bounds();
+	(
+		prop_oneof![3 => 1u16..6, 1 => any::<u16>()],
+		u64_edges(),
+		prop_oneof![3 => lo..=hi, 1 => Just(lo), 1 => Just(hi), 1 => Just(0i64), 3 => 1_500_000_000i64..2_000_000_000, 1 => -100_000i64..100_000],
+		any::<u64>(),
+		u64_edges(),
+		u64_edges(),
+		u64_edges(),
+		prop_oneof![3 => any::<u32>(), 1 => Just(0u32), 1 => Just(u32::MAX)],
+		any::<u64>(),
+		prspec(),
+	)
+		.prop_map(|(version, height, ts, seed, out_size, kern_size, td, scaling, nonce, proof)| HSpec {
+			version,
+			height,
+			ts,
+			seed,
+			out_size,
+			kern_size,
+			td,
+			scaling,
+			nonce,
+			proof,
+		})
+}
+
+fn difficulty(n: u64) -> Difficulty {
+	if n == 0 {
+		Difficulty::zero()
+	} else {
+		Difficulty::from_num(n)
+	}
+}
+
+impl HSpec {
+	fn pow(&self) -> ProofOfWork {
+		ProofOfWork { total_difficulty: difficulty(self.td), secondary_scaling: self.scaling, nonce: self.nonce, proof: self.proof.proof() }
+	}
+	fn header(&self) -> BlockHeader {
+		BlockHeader {
+			version: HeaderVersion(self.version),
+			height: self.height,
+			prev_hash: hash_from(self.seed, 10),
+			prev_root: hash_from(self.seed, 11),
+			timestamp: DateTime::<Utc>::from_timestamp(self.ts, 0).expect("timestamp in chrono range"),
+			output_root: hash_from(self.seed, 12),
+			range_proof_root: hash_from(self.seed, 13),
+			kernel_root: hash_from(self.seed, 14),
+			total_kernel_offset: BlindingFactor::from_slice(&expand(self.seed, 15, 32)),
+			output_mmr_size: self.out_size,
+			kernel_mmr_size: self.kern_size,
+			pow: self.pow(),
+		}
+	}
+}
+
+#[derive(Clone, Debug)]
+pub struct CbSpec {
+	header: HSpec,
+	nonce: u64,
+	outs: Vec<OSpec>,
+	kerns: Vec<KSpec>,
+	ids: Vec<u64>,
+	/// build with `CompactBlock::from(Block)` (random nonce chosen by grin) instead of from the layout
+	from_block: Option<BodySpec>,
+}
+
+impl CbSpec {
+	fn build(&self) -> Result<CompactBlock, String> {
+		let header = self.header.header();
+		if let Some(b) = &self.from_block {
+			return Ok(CompactBlock::from(Block { header, body: b.body() }));
+		}
+		// CompactBlock has no public constructor: write the documented layout
+		// (header, nonce, three counts, sorted lists) and decode it.
+		let mut seen = std::collections::BTreeSet::new();
+		let mut outs: Vec<Output> = self.outs.iter().filter(|o| seen.insert(o.key())).map(|o| o.output()).collect();
+		let mut seen = std::collections::BTreeSet::new();
+		let mut kerns: Vec<TxKernel> = self.kerns.iter().filter(|k| seen.insert(k.excess)).map(|k| k.kernel()).collect();
+		let hh = header.hash();
+		let mut ids: Vec<ShortId> = self.ids.iter().map(|s| hash_from(*s, 20).short_id(&hh, self.nonce)).collect();
+		outs.sort();
+		kerns.sort();
+		ids.sort();
+		ids.dedup();
+		let mut b = enc(&header, 1).map_err(|e| format!("{:?}", e))?;
+		b.extend_from_slice(&self.nonce.to_be_bytes());
+		b.extend_from_slice(&(outs.len() as u64).to_be_bytes());
+		b.extend_from_slice(&(kerns.len() as u64).to_be_bytes());
+		b.extend_from_slice(&(ids.len() as u64).to_be_bytes());
+		for o in &outs {
+			b.extend_from_slice(&enc(o, 1).map_err(|e| format!("{:?}", e))?);
+		}
+		for k in &kerns {
+			b.extend_from_slice(&enc(k, 1).map_err(|e| format!("{:?}", e))?);
+		}
+		for i in &ids {
+			b.extend_from_slice(i.as_ref());
+		}
+		let (r, used) = dec::<CompactBlock>(&b, 1);
+		let cb = r.map_err(|e| format!("layout-built compact block refused: {:?}", e))?;
+		if used != b.len() {
+			return Err(format!("layout-built compact block: consumed {} of {}", used, b.len()));
+		}
+		// the decoded value must hold exactly what was laid out
+		if cb.header != header || cb.nonce != self.nonce {
+			return Err("layout-built compact block: header/nonce differ".into());
+		}
+		same_list("out_full", cb.out_full(), &outs, same_output)?;
+		same_list("kern_full", cb.kern_full(), &kerns, same_kernel)?;
+		if cb.kern_ids().len() != ids.len() || cb.kern_ids().iter().zip(&ids).any(|(a, b)| a.as_ref() != b.as_ref()) {
+			return Err("layout-built compact block: kern_ids differ".into());
+		}
+		Ok(cb)
+	}
+}
+
+fn cbspec() -> impl Strategy<Value = CbSpec> {
+	(
+		hspec(),
+		any::<u64>(),
+		prop::collection::vec(ospec(), 0..=3),
+		prop::collection::vec(kspec(), 0..=3),
+		prop::collection::vec(any::<u64>(), 0..=5),
+		prop::option::weighted(0.3, bodyspec()),
+	)
+		.prop_map(|(header, nonce, outs, kerns, ids, from_block)| CbSpec { header, nonce, outs, kerns, ids, from_block })
+}
+
+#[derive(Clone, Debug)]
+pub enum ChainSpec {
+	Proof(PrSpec),
+	Pow(HSpec),
+	Header(HSpec),
+	Headers(Vec<HSpec>),
+	Block(HSpec, BodySpec),
+	Compact(CbSpec),
+	Entry(HSpec),
+	Tip(HSpec),
+	CommitPos(u64, u64),
+	Sums(u8, u8),
+	Merkle(u64, u8, u64),
+}
+
+fn chainspec() -> impl Strategy<Value = ChainSpec> {
+	prop_oneof![
+		3 => prspec().prop_map(ChainSpec::Proof),
+		2 => hspec().prop_map(ChainSpec::Pow),
+		4 => hspec().prop_map(ChainSpec::Header),
+		1 => (any::<bool>(), prop::collection::vec(hspec(), 0..=4)).prop_map(|(m, mut v)| {
+			for h in v.iter_mut() {
+				h.proof.mainnet = m;
+			}
+			ChainSpec::Headers(v)
+		}),
+		3 => (hspec(), bodyspec()).prop_map(|(h, b)| ChainSpec::Block(h, b)),
+		3 => cbspec().prop_map(ChainSpec::Compact),
+		1 => hspec().prop_map(ChainSpec::Entry),
+		1 => hspec().prop_map(ChainSpec::Tip),
+		1 => (u64_edges(), u64_edges()).prop_map(|(a, b)| ChainSpec::CommitPos(a, b)),
+		1 => (any::<u8>(), any::<u8>()).prop_map(|(a, b)| ChainSpec::Sums(a, b)),
+		1 => (u64_edges(), 0u8..14, any::<u64>()).prop_map(|(a, b, c)| ChainSpec::Merkle(a, b, c)),
+	]
+}
+
+#[derive(Clone, Debug)]
+pub enum TxSpecKind {
+	Features(KSpec),
+	Kernel(KSpec),
+	Input(u8, bool),
+	Commit(u8),
+	OutId(u8, bool),
+	Output(OSpec),
+	RangeProof(OSpec),
+	Inputs(BodySpec),
+	Body(BodySpec),
+	Tx(BodySpec),
+}
+
+fn txspec() -> impl Strategy<Value = TxSpecKind> {
+	prop_oneof![
+		3 => kspec().prop_map(TxSpecKind::Features),
+		3 => kspec().prop_map(TxSpecKind::Kernel),
+		1 => (any::<u8>(), any::<bool>()).prop_map(|(a, b)| TxSpecKind::Input(a, b)),
+		1 => any::<u8>().prop_map(TxSpecKind::Commit),
+		1 => (any::<u8>(), any::<bool>()).prop_map(|(a, b)| TxSpecKind::OutId(a, b)),
+		2 => ospec().prop_map(TxSpecKind::Output),
+		1 => ospec().prop_map(TxSpecKind::RangeProof),
+		2 => bodyspec().prop_map(TxSpecKind::Inputs),
+		4 => bodyspec().prop_map(TxSpecKind::Body),
+		5 => bodyspec().prop_map(TxSpecKind::Tx),
+	]
+}
+
+// ------------------------------------------------------------------ segment specs
+
+/// SegmentProof has no public constructor: decode the documented layout (count, hashes)
+fn segproof(seed: u64, n: u8) -> SegmentProof {
+	let mut b = (n as u64).to_be_bytes().to_vec();
+	for i in 0..n {
+		b.extend_from_slice(&expand(seed, 100 + i, 32));
+	}
+	let (r, _) = dec::<SegmentProof>(&b, 1);
+	r.expect("segment proof layout")
+}
+
+#[derive(Clone, Debug)]
+pub struct SegSpec {
+	height: u8,
+	idx: u64,
+	hpos: Vec<u64>,
+	lpos: Vec<u64>,
+	seed: u64,
+	proof_n: u8,
+}
+
+fn pos_list(max: usize) -> impl Strategy<Value = Vec<u64>> {
+	prop::collection::btree_set(prop_oneof![4 => 0u64..200, 2 => 0u64..(1u64 << 40), 1 => (u64::MAX - 1000)..(u64::MAX - 1)], 0..=max)
+		.prop_map(|s| s.into_iter().collect())
+}
+
+fn segspec() -> impl Strategy<Value = SegSpec> {
+	(any::<u8>(), u64_edges(), pos_list(5), pos_list(5), any::<u64>(), 0u8..8)
+		.prop_map(|(height, idx, hpos, lpos, seed, proof_n)| SegSpec { height, idx, hpos, lpos, seed, proof_n })
+}
+
+impl SegSpec {
+	fn id(&self) -> SegmentIdentifier {
+		SegmentIdentifier { height: self.height, idx: self.idx }
+	}
+	fn build<T>(&self, leaf: impl Fn(u64, u64) -> T) -> Segment<T> {
+		let hashes: Vec<Hash> = (0..self.hpos.len()).map(|i| hash_from(self.seed, 30 + i as u8)).collect();
+		let data: Vec<T> = (0..self.lpos.len() as u64).map(|i| leaf(self.seed, i)).collect();
+		Segment::from_parts(self.id(), self.hpos.clone(), hashes, self.lpos.clone(), data, segproof(self.seed, self.proof_n))
+	}
+	fn outids(&self) -> Segment<OutputIdentifier> {
+		self.build(|s, i| {
+			let x = u64_from(s, 60 + i as u8);
+			OutputIdentifier::new(if x & 1 == 1 { OutputFeatures::Coinbase } else { OutputFeatures::Plain }, &COMMITS[((x >> 8) % 256) as usize])
+		})
+	}
+	fn proofs(&self) -> Segment<RangeProof> {
+		self.build(|s, i| {
+			let x = u64_from(s, 70 + i as u8);
+			if x % 3 == 0 {
+				LIB.output(&universe()[(x >> 8) as usize % 24]).proof
+			} else {
+				OSpec::proof(x)
+			}
+		})
+	}
+	fn kernels(&self) -> Segment<TxKernel> {
+		self.build(|s, i| KSpec::from_seed(s, i).kernel())
+	}
+}
+
+/// a segment cut from a real (in-memory) kernel MMR by the repository's own producer
+#[derive(Clone, Debug)]
+pub struct PmmrSegSpec {
+	leaves: u8,
+	seg_h: u8,
+	seg_idx: u8,
+	seed: u64,
+}
+
+impl PmmrSegSpec {
+	fn build(&self) -> Result<Segment<TxKernel>, String> {
+		let mut backend: VecBackend<TxKernel> = VecBackend::new();
+		let n = 1 + self.leaves as u64 % 40;
+		let size = {
+			let mut p = PMMR::<TxKernel, _>::new(&mut backend);
+			for i in 0..n {
+				p.push(&KSpec::from_seed(self.seed, i).kernel()).map_err(|e| format!("push: {}", e))?;
+			}
+			p.unpruned_size()
+		};
+		let h = self.seg_h % 4;
+		let count = SegmentIdentifier::count_segments_required(size, h).max(1) as u64;
+		let id = SegmentIdentifier { height: h, idx: self.seg_idx as u64 % count };
+		let ro = ReadonlyPMMR::<TxKernel, _>::at(&backend, size);
+		Segment::from_pmmr(id, &ro, false).map_err(|e| format!("from_pmmr: {:?}", e))
+	}
+}
+
+#[derive(Clone, Debug)]
+pub struct BmSpec {
+	height: u8,
+	idx: u64,
+	chunks: u16,
+	/// per block: (0: k ones, 1: k zeros, 2: about half), k
+	fills: Vec<(u8, u16)>,
+	seed: u64,
+	proof_n: u8,
+}
+
+fn bmspec() -> impl Strategy<Value = BmSpec> {
+	let k = prop_oneof![
+		3 => 0u16..64,
+		2 => any::<u16>(),
+		3 => prop_oneof![Just(4094u16), Just(4095u16), Just(4096u16), Just(4097u16)],
+		1 => Just(0u16),
+		1 => Just(1024u16),
+	];
+	(
+		0u8..=13,
+		0u64..(1u64 << 40),
+		prop_oneof![4 => 1u16..=8, 3 => 1u16..=64, 2 => 64u16..=130, 1 => Just(64u16), 1 => Just(128u16)],
+		prop::collection::vec((0u8..3, k), 3),
+		any::<u64>(),
+		0u8..5,
+	)
+		.prop_map(|(height, idx, chunks, fills, seed, proof_n)| BmSpec { height, idx, chunks, fills, seed, proof_n })
+}
+
+impl BmSpec {
+	fn build(&self) -> BitmapSegment {
+		// BitmapSegment::read accepts at most 2^height chunks
+		let n_chunks = (self.chunks as usize).clamp(1, 1usize << self.height);
+		let mut chunks: Vec<BitmapChunk> = (0..n_chunks).map(|_| BitmapChunk::new()).collect();
+		let n_blocks = (n_chunks + 63) / 64;
+		for blk in 0..n_blocks {
+			let first = blk * 64;
+			let nc = (n_chunks - first).min(64);
+			let n_bits = nc * 1024;
+			let (kind, k) = self.fills[blk % self.fills.len()];
+			let k = (k as usize).min(n_bits);
+			let start = (u64_from(self.seed, blk as u8) as usize) % n_bits;
+			// i -> (start + i * 7919) mod n_bits is a bijection (7919 is prime, n_bits = 1024 * nc, nc <= 64)
+			let at = |i: usize| (start + i * 7919) % n_bits;
+			match kind {
+				0 => {
+					for i in 0..k {
+						let p = at(i);
+						chunks[first + p / 1024].set((p % 1024) as u64, true);
+					}
+				}
+				1 => {
+					for i in k..n_bits {
+						let p = at(i);
+						chunks[first + p / 1024].set((p % 1024) as u64, true);
+					}
+				}
+				_ => {
+					let raw = expand(self.seed, 40 + blk as u8, n_bits / 8);
+					for p in 0..n_bits {
+						if raw[p / 8] >> (p % 8) & 1 == 1 {
+							chunks[first + p / 1024].set((p % 1024) as u64, true);
+						}
+					}
+				}
+			}
+		}
+		let leaf_pos: Vec<u64> = (0..n_chunks as u64).map(|i| grin_core::core::pmmr::insertion_to_pmmr_index(i)).collect();
+		let id = SegmentIdentifier { height: self.height, idx: self.idx };
+		let seg = Segment::from_parts(id, vec![], vec![], leaf_pos, chunks, segproof(self.seed, self.proof_n));
+		BitmapSegment::from(seg)
+	}
+}
+
+#[derive(Clone, Debug)]
+pub enum SegKind {
+	Id(u8, u64),
+	Proof(u64, u8),
+	OutIds(SegSpec),
+	Proofs(SegSpec),
+	Kernels(SegSpec),
+	FromPmmr(PmmrSegSpec),
+	Bitmap(BmSpec),
+	Request(u64, u8, u64),
+	RespProofs(u64, SegSpec),
+	RespKernels(u64, SegSpec),
+	RespOutputs(u64, SegSpec),
+	RespBitmap(u64, BmSpec),
+}
+
+fn segkind() -> impl Strategy<Value = SegKind> {
+	prop_oneof![
+		1 => (any::<u8>(), u64_edges()).prop_map(|(a, b)| SegKind::Id(a, b)),
+		1 => (any::<u64>(), 0u8..12).prop_map(|(a, b)| SegKind::Proof(a, b)),
+		3 => segspec().prop_map(SegKind::OutIds),
+		3 => segspec().prop_map(SegKind::Proofs),
+		3 => segspec().prop_map(SegKind::Kernels),
+		2 => (any::<u8>(), any::<u8>(), any::<u8>(), any::<u64>()).prop_map(|(leaves, seg_h, seg_idx, seed)| SegKind::FromPmmr(PmmrSegSpec { leaves, seg_h, seg_idx, seed })),
+		3 => bmspec().prop_map(SegKind::Bitmap),
+		1 => (any::<u64>(), any::<u8>(), u64_edges()).prop_map(|(a, b, c)| SegKind::Request(a, b, c)),
+		1 => (any::<u64>(), segspec()).prop_map(|(a, b)| SegKind::RespProofs(a, b)),
+		1 => (any::<u64>(), segspec()).prop_map(|(a, b)| SegKind::RespKernels(a, b)),
+		1 => (any::<u64>(), segspec()).prop_map(|(a, b)| SegKind::RespOutputs(a, b)),
+		1 => (any::<u64>(), bmspec()).prop_map(|(a, b)| SegKind::RespBitmap(a, b)),
+	]
+}
+
+// ------------------------------------------------------------------ p2p specs
+
+#[derive(Clone, Debug)]
+pub struct AddrSpec {
+	v6: bool,
+	ip: [u16; 8],
+	port: u16,
+}
+
+impl AddrSpec {
+	fn addr(&self) -> PeerAddr {
+		if self.v6 {
+			let mut s = self.ip;
+			let a = Ipv6Addr::new(s[0], s[1], s[2], s[3], s[4], s[5], s[6], s[7]);
+			// PeerAddr::read turns every IPv6 address that has an IPv4 form into that form
+			// (documented normalisation): only addresses without one are generated here
+			if a.to_ipv4().is_some() {
+				s[0] = 0x2001;
+			}
+			let a = Ipv6Addr::new(s[0], s[1], s[2], s[3], s[4], s[5], s[6], s[7]);
+			// flowinfo / scope_id are not part of the wire format
+			PeerAddr(SocketAddr::V6(SocketAddrV6::new(a, self.port, 0, 0)))
+		} else {
+			let b = [self.ip[0].to_be_bytes(), self.ip[1].to_be_bytes()];
+			PeerAddr(SocketAddr::V4(SocketAddrV4::new(Ipv4Addr::new(b[0][0], b[0][1], b[1][0], b[1][1]), self.port)))
+		}
+	}
+}
+
+fn addrspec() -> impl Strategy<Value = AddrSpec> {
+	(
+		any::<bool>(),
+		prop_oneof![
+			3 => prop::array::uniform8(any::<u16>()),
+			1 => Just([0x7f00, 1, 0, 0, 0, 0, 0, 0]),
+			1 => Just([0, 0, 0, 0, 0, 0, 0, 1]),
+			1 => Just([0, 0, 0, 0, 0, 0xffff, 0x0102, 0x0304]),
+			1 => Just([0xfe80, 0, 0, 0, 0, 0, 0, 1]),
+		],
+		prop_oneof![2 => any::<u16>(), 1 => Just(0u16), 1 => Just(3414u16)],
+	)
+		.prop_map(|(v6, ip, port)| AddrSpec { v6, ip, port })
+}
+
+fn text() -> impl Strategy<Value = String> {
+	prop_oneof![
+		3 => prop::collection::vec(0x20u8..0x7f, 0..40).prop_map(|v| String::from_utf8(v).unwrap()),
+		2 => prop::collection::vec(any::<char>(), 0..24).prop_map(|v| v.into_iter().collect()),
+		1 => Just(String::new()),
+		1 => Just(grin_p2p::msg::user_agent()),
+	]
+}
+
+const TYPES: [Type; 29] = [
+	Type::Error,
+	Type::Hand,
+	Type::Shake,
+	Type::Ping,
+	Type::Pong,
+	Type::GetPeerAddrs,
+	Type::PeerAddrs,
+	Type::GetHeaders,
+	Type::Header,
+	Type::Headers,
+	Type::GetBlock,
+	Type::Block,
+	Type::GetCompactBlock,
+	Type::CompactBlock,
+	Type::StemTransaction,
+	Type::Transaction,
+	Type::TxHashSetRequest,
+	Type::TxHashSetArchive,
+	Type::BanReason,
+	Type::GetTransaction,
+	Type::TransactionKernel,
+	Type::GetOutputBitmapSegment,
+	Type::OutputBitmapSegment,
+	Type::GetOutputSegment,
+	Type::OutputSegment,
+	Type::GetRangeProofSegment,
+	Type::RangeProofSegment,
+	Type::GetKernelSegment,
+	Type::KernelSegment,
+];
+
+#[derive(Clone, Debug)]
+pub enum P2pSpec {
+	Addr(AddrSpec),
+	Addrs(Vec<AddrSpec>),
+	Hand { version: u32, caps: u8, nonce: u64, seed: u64, td: u64, sender: AddrSpec, receiver: AddrSpec, ua: String },
+	Shake { version: u32, caps: u8, seed: u64, td: u64, ua: String },
+	Ping(u64, u64),
+	Pong(u64, u64),
+	GetPeerAddrs(u8),
+	PeerError(u32, String),
+	Ban(u8),
+	Locator(u64, u8),
+	TxHashSetRequest(u64, u64),
+	TxHashSetArchive(u64, u64, u64),
+	MsgHeader(u8, u64),
+}
+
+fn ver() -> impl Strategy<Value = u32> {
+	prop_oneof![2 => 0u32..5, 1 => Just(1000u32), 1 => any::<u32>()]
+}
+
+fn p2pspec() -> impl Strategy<Value = P2pSpec> {
+	prop_oneof![
+		3 => addrspec().prop_map(P2pSpec::Addr),
+		3 => prop::collection::vec(addrspec(), 0..=6).prop_map(P2pSpec::Addrs),
+		3 => (ver(), 0u8..128, any::<u64>(), any::<u64>(), u64_edges(), addrspec(), addrspec(), text())
+			.prop_map(|(version, caps, nonce, seed, td, sender, receiver, ua)| P2pSpec::Hand { version, caps, nonce, seed, td, sender, receiver, ua }),
+		3 => (ver(), 0u8..128, any::<u64>(), u64_edges(), text()).prop_map(|(version, caps, seed, td, ua)| P2pSpec::Shake { version, caps, seed, td, ua }),
+		1 => (u64_edges(), u64_edges()).prop_map(|(a, b)| P2pSpec::Ping(a, b)),
+		1 => (u64_edges(), u64_edges()).prop_map(|(a, b)| P2pSpec::Pong(a, b)),
+		1 => (0u8..128).prop_map(P2pSpec::GetPeerAddrs),
+		2 => (any::<u32>(), text()).prop_map(|(a, b)| P2pSpec::PeerError(a, b)),
+		1 => (0u8..8).prop_map(P2pSpec::Ban),
+		2 => (any::<u64>(), 0u8..=20).prop_map(|(a, b)| P2pSpec::Locator(a, b)),
+		1 => (any::<u64>(), u64_edges()).prop_map(|(a, b)| P2pSpec::TxHashSetRequest(a, b)),
+		1 => (any::<u64>(), u64_edges(), u64_edges()).prop_map(|(a, b, c)| P2pSpec::TxHashSetArchive(a, b, c)),
+		2 => (0u8..29, prop_oneof![2 => 0u64..=16, 1 => 0u64..30_000]).prop_map(|(a, b)| P2pSpec::MsgHeader(a, b)),
+	]
+}
+
+fn caps(bits: u8) -> Capabilities {
+	// only defined capability bits (the reader drops undefined ones: from_bits_truncate)
+	Capabilities::from_bits_truncate(bits as u32 & 0x7f)
+}
+
+const BAN_REASONS: [ReasonForBan; 8] = [
+	ReasonForBan::None,
+	ReasonForBan::BadBlock,
+	ReasonForBan::BadCompactBlock,
+	ReasonForBan::BadBlockHeader,
+	ReasonForBan::BadTxHashSet,
+	ReasonForBan::ManualBan,
+	ReasonForBan::FraudHeight,
+	ReasonForBan::BadHandshake,
+];
+
+// ------------------------------------------------------------------ spec -> typed value -> generic action
+
+trait Visit {
+	type R;
+	fn go<T: Obj>(self, x: &T, mainnet: bool) -> Self::R;
+	fn build_failed(self, msg: String) -> Self::R;
+}
+
+#[derive(Clone, Debug)]
+pub enum Spec {
+	Tx(TxSpecKind),
+	Chain(ChainSpec),
+	Seg(SegKind),
+	P2p(P2pSpec),
+}
+
+fn visit<V: Visit>(spec: &Spec, v: V) -> V::R {
+	let mainnet = match spec {
+		Spec::Chain(ChainSpec::Proof(p)) => p.mainnet,
+		Spec::Chain(ChainSpec::Pow(h)) | Spec::Chain(ChainSpec::Header(h)) => h.proof.mainnet,
+		Spec::Chain(ChainSpec::Headers(hs)) => hs.first().map(|h| h.proof.mainnet).unwrap_or(false),
+		_ => false,
+	};
+	set_chain(mainnet);
+	let r = visit_inner(spec, v, mainnet);
+	set_chain(false);
+	r
+}
+
+fn visit_inner<V: Visit>(spec: &Spec, v: V, mainnet: bool) -> V::R {
+	match spec {
+		Spec::Tx(t) => match t {
+			TxSpecKind::Features(k) => v.go(&k.features(), false),
+			TxSpecKind::Kernel(k) => v.go(&k.kernel(), false),
+			TxSpecKind::Input(i, cb) => v.go(&Input::new(if *cb { OutputFeatures::Coinbase } else { OutputFeatures::Plain }, COMMITS[*i as usize]), false),
+			TxSpecKind::Commit(i) => v.go(&CommitWrapper::from(COMMITS[*i as usize]), false),
+			TxSpecKind::OutId(i, cb) => v.go(&OutputIdentifier::new(if *cb { OutputFeatures::Coinbase } else { OutputFeatures::Plain }, &COMMITS[*i as usize]), false),
+			TxSpecKind::Output(o) => v.go(&o.output(), false),
+			TxSpecKind::RangeProof(o) => v.go(&o.output().proof, false),
+			TxSpecKind::Inputs(b) => v.go(&b.inputs(), false),
+			TxSpecKind::Body(b) => v.go(&b.body(), false),
+			TxSpecKind::Tx(b) => v.go(&b.tx(), false),
+		},
+		Spec::Chain(c) => match c {
+			ChainSpec::Proof(p) => v.go(&p.proof(), mainnet),
+			ChainSpec::Pow(h) => v.go(&h.pow(), mainnet),
+			ChainSpec::Header(h) => v.go(&h.header(), mainnet),
+			ChainSpec::Headers(hs) => v.go(&HeadersW(Headers { headers: hs.iter().map(|h| h.header()).collect() }), mainnet),
+			ChainSpec::Block(h, b) => v.go(&Block { header: h.header(), body: b.body() }, false),
+			ChainSpec::Compact(c) => match c.build() {
+				Ok(cb) => v.go(&cb, false),
+				Err(e) => v.build_failed(e),
+			},
+			ChainSpec::Entry(h) => v.go(&h.header().as_elmt(), false),
+			ChainSpec::Tip(h) => v.go(&Tip::from_header(&h.header()), false),
+			ChainSpec::CommitPos(a, b) => v.go(&CommitPos { pos: *a, height: *b }, false),
+			ChainSpec::Sums(a, b) => v.go(&BlockSums { utxo_sum: COMMITS[*a as usize], kernel_sum: COMMITS[*b as usize] }, false),
+			ChainSpec::Merkle(size, n, seed) => v.go(&MerkleProof { mmr_size: *size, path: (0..*n).map(|i| hash_from(*seed, i)).collect() }, false),
+		},
+		Spec::Seg(s) => match s {
+			SegKind::Id(h, i) => v.go(&SegmentIdentifier { height: *h, idx: *i }, false),
+			SegKind::Proof(seed, n) => v.go(&segproof(*seed, *n), false),
+			SegKind::OutIds(s) => v.go(&s.outids(), false),
+			SegKind::Proofs(s) => v.go(&s.proofs(), false),
+			SegKind::Kernels(s) => v.go(&s.kernels(), false),
+			SegKind::FromPmmr(p) => match p.build() {
+				Ok(s) => v.go(&s, false),
+				Err(e) => v.build_failed(e),
+			},
+			SegKind::Bitmap(b) => v.go(&b.build(), false),
+			SegKind::Request(seed, h, i) => v.go(&SegmentRequest { block_hash: hash_from(*seed, 1), identifier: SegmentIdentifier { height: *h, idx: *i } }, false),
+			SegKind::RespProofs(seed, s) => v.go(&SegmentResponse { block_hash: hash_from(*seed, 1), segment: s.proofs() }, false),
+			SegKind::RespKernels(seed, s) => v.go(&SegmentResponse { block_hash: hash_from(*seed, 1), segment: s.kernels() }, false),
+			SegKind::RespOutputs(seed, s) => v.go(
+				&OutputSegmentResponse { response: SegmentResponse { block_hash: hash_from(*seed, 1), segment: s.outids() }, output_bitmap_root: hash_from(*seed, 2) },
+				false,
+			),
+			SegKind::RespBitmap(seed, b) => v.go(&OutputBitmapSegmentResponse { block_hash: hash_from(*seed, 1), segment: b.build(), output_root: hash_from(*seed, 2) }, false),
+		},
+		Spec::P2p(p) => match p {
+			P2pSpec::Addr(a) => v.go(&a.addr(), false),
+			P2pSpec::Addrs(a) => v.go(&PeerAddrs { peers: a.iter().map(|a| a.addr()).collect() }, false),
+			P2pSpec::Hand { version, caps: c, nonce, seed, td, sender, receiver, ua } => v.go(
+				&Hand {
+					version: ProtocolVersion(*version),
+					capabilities: caps(*c),
+					nonce: *nonce,
+					genesis: hash_from(*seed, 1),
+					total_difficulty: difficulty(*td),
+					sender_addr: sender.addr(),
+					receiver_addr: receiver.addr(),
+					user_agent: ua.clone(),
+				},
+				false,
+			),
+			P2pSpec::Shake { version, caps: c, seed, td, ua } => v.go(
+				&Shake { version: ProtocolVersion(*version), capabilities: caps(*c), genesis: hash_from(*seed, 1), total_difficulty: difficulty(*td), user_agent: ua.clone() },
+				false,
+			),
+			P2pSpec::Ping(td, h) => v.go(&Ping { total_difficulty: difficulty(*td), height: *h }, false),
+			P2pSpec::Pong(td, h) => v.go(&Pong { total_difficulty: difficulty(*td), height: *h }, false),
+			P2pSpec::GetPeerAddrs(c) => v.go(&GetPeerAddrs { capabilities: caps(*c) }, false),
+			P2pSpec::PeerError(code, m) => v.go(&PeerError { code: *code, message: m.clone() }, false),
+			P2pSpec::Ban(r) => v.go(&BanReason { ban_reason: BAN_REASONS[*r as usize % 8] }, false),
+			P2pSpec::Locator(seed, n) => v.go(&Locator { hashes: (0..*n).map(|i| hash_from(*seed, i)).collect() }, false),
+			P2pSpec::TxHashSetRequest(seed, h) => v.go(&TxHashSetRequest { hash: hash_from(*seed, 1), height: *h }, false),
+			P2pSpec::TxHashSetArchive(seed, h, b) => v.go(&TxHashSetArchive { hash: hash_from(*seed, 1), height: *h, bytes: *b }, false),
+			P2pSpec::MsgHeader(t, len) => {
+				let t = TYPES[*t as usize % 29];
+				// MsgHeaderWrapper::read refuses lengths above 4 x the per-type maximum
+				let max = match t {
+					Type::Error => 0,
+					Type::Block | Type::StemTransaction | Type::Transaction => 30_000,
+					Type::OutputBitmapSegment | Type::OutputSegment | Type::RangeProofSegment | Type::KernelSegment => 60_000,
+					_ => 16,
+				};
+				v.go(&MsgHeaderW(MsgHeader::new(t, *len % (max + 1))), false)
+			}
+		},
+	}
+}
+
+struct Check<'a> {
+	ctx: &'a Ctx,
+	counting: bool,
+}
+
+impl<'a> Visit for Check<'a> {
+	type R = PResult;
+	fn go<T: Obj>(self, x: &T, _mainnet: bool) -> PResult {
+		check_obj(self.ctx, x, self.counting)
+	}
+	fn build_failed(self, msg: String) -> PResult {
+		Err(Fail::new("value-construction-failed", msg))
+	}
+}
+
+struct ToCase;
+
+impl Visit for ToCase {
+	type R = Value;
+	fn go<T: Obj>(self, x: &T, mainnet: bool) -> Value {
+		case_json(x, mainnet)
+	}
+	fn build_failed(self, msg: String) -> Value {
+		json!({"type": "construction", "error": msg})
+	}
+}
+
+macro_rules! all_types {
+	($m:ident) => {
+		$m!(
+			KernelFeatures,
+			TxKernel,
+			Input,
+			CommitWrapper,
+			OutputIdentifier,
+			Output,
+			RangeProof,
+			InputsW,
+			TransactionBody,
+			Transaction,
+			Proof,
+			ProofOfWork,
+			BlockHeader,
+			HeadersW,
+			Block,
+			CompactBlock,
+			HeaderEntry,
+			Tip,
+			CommitPos,
+			BlockSums,
+			MerkleProof,
+			SegmentIdentifier,
+			SegmentProof,
+			Segment<OutputIdentifier>,
+			Segment<RangeProof>,
+			Segment<TxKernel>,
+			BitmapSegment,
+			SegmentRequest,
+			SegmentResponse<RangeProof>,
+			SegmentResponse<TxKernel>,
+			OutputSegmentResponse,
+			OutputBitmapSegmentResponse,
+			PeerAddr,
+			PeerAddrs,
+			Hand,
+			Shake,
+			Ping,
+			Pong,
+			GetPeerAddrs,
+			PeerError,
+			BanReason,
+			Locator,
+			TxHashSetRequest,
+			TxHashSetArchive,
+			MsgHeaderW
+		)
+	};
+}
+
+fn check_case(ctx: &Ctx, case: &Value) -> PResult {
+	let tag = case["type"].as_str().unwrap_or("").to_string();
+	let enc_v = case["enc_version"].as_u64().unwrap_or(1) as u32;
+	let mainnet = case["mainnet"].as_bool().unwrap_or(false);
+	let bytes = grin_util::from_hex(case["hex"].as_str().unwrap_or("")).map_err(|e| Fail::new("harness:replay-hex", format!("{:?}", e)))?;
+	set_chain(mainnet);
+	macro_rules! go {
+		($($t:ty),*) => {
+			$( if tag == <$t as Obj>::tag() {
+				let r = check_hex::<$t>(ctx, &bytes, enc_v);
+				set_chain(false);
+				return r;
+			} )*
+		};
+	}
+	all_types!(go);
+	set_chain(false);
+	Err(Fail::new("harness:unknown-type", tag))
+}
+
+fn covered_types() -> Vec<String> {
+	let mut v = vec![];
+	macro_rules! go {
+		($($t:ty),*) => { $( v.push(<$t as Obj>::tag()); )* };
+	}
+	all_types!(go);
+	v
+}
+
+// ------------------------------------------------------------------ probes: measured, never asserted
+
+/// Decode `b` as T and classify: refused / accepted as-is (re-encodes to the
+/// consumed bytes) / normalised (re-encodes to something else).
+fn probe<T: Writeable + Readable>(ctx: &Ctx, list: &mut Vec<Value>, name: &str, ty: &str, b: &[u8], v: u32, note: &str) {
+	let (r, used) = dec::<T>(b, v);
+	let (outcome, re) = match r {
+		Err(e) => (format!("refused ({:?})", e), None),
+		Ok(y) => match enc(&y, v) {
+			Ok(re) if re[..] == b[..used] => ("accepted-as-is".to_string(), None),
+			Ok(re) => ("normalised".to_string(), Some(hex_short(&re))),
+			Err(e) => (format!("accepted, re-encode fails ({:?})", e), None),
+		},
+	};
+	let short = outcome.split(' ').next().unwrap_or("").trim_end_matches(',').to_string();
+	ctx.ev.class(&format!("probe:{}:{}", name, short));
+	list.push(json!({
+		"probe": name, "type": ty, "version": v, "input_hex": hex_short(b), "consumed": used, "input_len": b.len(),
+		"outcome": outcome, "reencoded_hex": re, "note": note,
+	}));
+}
+
+fn probes(ctx: &Ctx) {
+	init_thread();
+	set_chain(false);
+	let mut l: Vec<Value> = vec![];
+	let lv = ProtocolVersion::local().0;
+	// PeerAddr
+	let v6 = |a: Ipv6Addr, port: u16| PeerAddr(SocketAddr::V6(SocketAddrV6::new(a, port, 0, 0)));
+	let mut b = enc(&v6(Ipv6Addr::new(0x2001, 0xdb8, 0, 0, 0, 0, 0, 1), 3414), lv).unwrap();
+	b[0] = 2;
+	probe::<PeerAddr>(ctx, &mut l, "peeraddr-family-tag-2", "PeerAddr", &b, lv, "family byte other than 0/1 with an IPv6 body");
+	let b = enc(&v6(Ipv6Addr::new(0, 0, 0, 0, 0, 0, 0, 1), 3414), lv).unwrap();
+	probe::<PeerAddr>(ctx, &mut l, "peeraddr-v6-loopback", "PeerAddr", &b, lv, "what the writer emits for [::1]:3414; Ipv6Addr::to_ipv4 maps ::1 to 0.0.0.1");
+	let b = enc(&v6(Ipv6Addr::new(0, 0, 0, 0, 0, 0xffff, 0x0102, 0x0304), 3414), lv).unwrap();
+	probe::<PeerAddr>(ctx, &mut l, "peeraddr-v4-mapped", "PeerAddr", &b, lv, "what the writer emits for [::ffff:1.2.3.4]:3414 (documented v4-in-v6 mapping)");
+	// RangeProof length handling
+	let mut b = 10u64.to_be_bytes().to_vec();
+	b.extend_from_slice(&[7u8; 10]);
+	probe::<RangeProof>(ctx, &mut l, "rangeproof-short", "RangeProof", &b, lv, "length prefix 10: zero-padded to 675 bytes");
+	let mut b = 700u64.to_be_bytes().to_vec();
+	b.extend_from_slice(&[7u8; 700]);
+	probe::<RangeProof>(ctx, &mut l, "rangeproof-long", "RangeProof", &b, lv, "length prefix 700: 675 bytes read, 25 left in the stream");
+	let mut p = OSpec::proof(1);
+	p.plen = 100;
+	let b = enc(&Output::new(OutputFeatures::Plain, COMMITS[200], p), lv).unwrap();
+	probe::<Output>(ctx, &mut l, "output-proof-plen-100", "Output", &b, lv, "what the writer emits for a RangeProof with plen 100");
+	// HeaderEntry bool byte
+	let h = HSpec { version: 1, height: 1, ts: 0, seed: 1, out_size: 1, kern_size: 1, td: 1, scaling: 1, nonce: 1, proof: PrSpec { mainnet: false, edge_bits: 3, nseed: 1, sorted: true } };
+	let mut b = enc(&h.header().as_elmt(), lv).unwrap();
+	let n = b.len();
+	b[n - 1] = 2;
+	probe::<HeaderEntry>(ctx, &mut l, "headerentry-bool-2", "HeaderEntry", &b, lv, "is_secondary byte 2");
+	// capabilities
+	let mut b = enc(&Shake { version: ProtocolVersion(1), capabilities: caps(0x7f), genesis: hash_from(1, 1), total_difficulty: difficulty(1), user_agent: "x".into() }, lv).unwrap();
+	b[4] = 0xff;
+	probe::<Shake>(ctx, &mut l, "shake-undefined-capability-bits", "Shake", &b, lv, "capability bits outside the defined set (from_bits_truncate)");
+	// BanReason
+	probe::<BanReason>(ctx, &mut l, "banreason-empty-body", "BanReason", &[], lv, "read error mapped to code 0");
+	// bitmap blocks
+	let bm = |block: &[u8]| {
+		let mut b = vec![0u8; 9];
+		b.extend_from_slice(&1u16.to_be_bytes());
+		b.extend_from_slice(block);
+		b.extend_from_slice(&0u64.to_be_bytes());
+		b
+	};
+	probe::<BitmapSegment>(ctx, &mut l, "bitmap-positive-unsorted", "BitmapSegment", &bm(&[1, 1, 0, 2, 0, 5, 0, 3]), lv, "positive index list 5,3");
+	probe::<BitmapSegment>(ctx, &mut l, "bitmap-positive-repeated", "BitmapSegment", &bm(&[1, 1, 0, 2, 0, 3, 0, 3]), lv, "positive index list 3,3");
+	let mut raw = vec![1u8, 0];
+	raw.extend_from_slice(&[0u8; 128]);
+	raw[2] = 0x80;
+	probe::<BitmapSegment>(ctx, &mut l, "bitmap-raw-for-sparse", "BitmapSegment", &bm(&raw), lv, "raw mode for a block with one bit set");
+	probe::<BitmapSegment>(ctx, &mut l, "bitmap-negative-for-small", "BitmapSegment", &bm(&[1, 2, 0, 1, 0, 9]), lv, "negative mode for a 1-chunk block (1023 ones < threshold)");
+	// fee future-use bits
+	for v in [1u32, 2] {
+		let mut b = enc(&KernelFeatures::Plain { fee: FeeFields::new(0, 1).unwrap() }, v).unwrap();
+		b[1] = 0xff;
+		probe::<KernelFeatures>(ctx, &mut l, "kernel-fee-future-use-bits", "KernelFeatures", &b, v, "top 20 bits of the fee field (future use) non-zero");
+	}
+	// proof with unsorted nonces is not a codec rule
+	let mut pr = PrSpec { mainnet: false, edge_bits: 20, nseed: 5, sorted: false }.proof();
+	pr.nonces.reverse();
+	probe::<Proof>(ctx, &mut l, "proof-unsorted-nonces", "Proof", &enc(&pr, lv).unwrap(), lv, "nonce order is checked by PoW verification, not by the codec");
+	// message header of an unknown type
+	let mut b = enc(&MsgHeader::new(Type::Ping, 16), lv).unwrap();
+	b[2] = 200;
+	let (r, _) = dec::<MsgHeaderWrapper>(&b, lv);
+	let o = match r {
+		Ok(MsgHeaderWrapper::Unknown(len, t)) => format!("accepted as Unknown({}, {})", len, t),
+		Ok(MsgHeaderWrapper::Known(_)) => "accepted as Known".to_string(),
+		Err(e) => format!("refused ({:?})", e),
+	};
+	ctx.ev.class(&format!("probe:msgheader-unknown-type:{}", o.split(' ').next().unwrap_or("")));
+	l.push(json!({"probe": "msgheader-unknown-type", "type": "MsgHeaderWrapper", "version": lv, "input_hex": hex(&b), "outcome": o,
+		"note": "by design: the body is discarded and read_message answers BadMessage"}));
+	// Segment<BitmapChunk>: BitmapChunk::read consumes nothing and returns an empty chunk
+	let mut c = BitmapChunk::new();
+	c.set(3, true);
+	let seg = Segment::from_parts(SegmentIdentifier { height: 0, idx: 0 }, vec![], vec![], vec![0], vec![c], segproof(1, 0));
+	let b = enc(&seg, lv).unwrap();
+	probe::<Segment<BitmapChunk>>(ctx, &mut l, "segment-of-bitmapchunk", "Segment<BitmapChunk>", &b, lv, "documented: reading BitmapChunk is not supported (BitmapSegment is the wire form)");
+	// sanity: things that must be (and are) refused
+	let mut b = enc(&h.header(), lv).unwrap();
+	put64(&mut b, 10, i64::MAX as u64);
+	probe::<BlockHeader>(ctx, &mut l, "header-timestamp-out-of-range", "BlockHeader", &b, lv, "timestamp beyond chrono's range");
+	let mut b = enc(&PeerError { code: 1, message: "ab".into() }, lv).unwrap();
+	let n = b.len();
+	b[n - 1] = 0xff;
+	probe::<PeerError>(ctx, &mut l, "string-invalid-utf8", "PeerError", &b, lv, "invalid UTF-8 in a string field");
+	ctx.ev.extra("normalisation_probes", json!(l));
+}
+
+// ------------------------------------------------------------------ run / replay
+
+fn run_family<S: Strategy<Value = Spec>>(ctx: &Ctx, part: &str, cases: u64, make: impl Fn() -> S + Sync) {
+	let t0 = std::time::Instant::now();
+	let fl = pbt_par(ctx, part, cases, 16, make, init_thread, |s, counting| visit(s, Check { ctx, counting }));
+	if let Some(fl) = fl {
+		init_thread();
+		let case = visit(&fl.value, ToCase);
+		ctx.report(part, &fl.fail.sig, case, &fl.fail.msg);
+	}
+	ctx.ev.extra(&format!("wall_s_{}", part), json!(t0.elapsed().as_secs_f64()));
+}
+
+pub fn run(ctx: &Ctx) -> HResult<()> {
+	init_global();
+	let ev = &ctx.ev;
+	ev.rule("typed values of every reachable consensus / wire type are generated by proptest from small specs (kernels of all four variants over the full field ranges, inputs in both encodings, outputs with real and synthetic 675-byte proofs, sorted unique bodies of 0..6 entries, headers with every field random at every edge_bits the proof codec is defined for with proof size 8 and 42, segments, bitmap segments in all three block encodings around the 4096 thresholds, handshake and sync messages); each value is crossed with protocol versions 1,2,3,1000 (local, db): encode, decode (exact consumption), equality (inputs by commitment where the version drops features), identical re-encoding, identity hash unchanged and equal to blake2b of the version-1 identity encoding; from every valid encoding one-rule violations of the canonical form are derived and must be refused; evaluations = (value, version) round trips + rejection cases; non-trivial = value with >= 2 entries in some list or a non-default variant, and every rejection case (its unmodified encoding decoded); distinct by (type, version, shape class | rule)");
+	ev.assume("blake2b (blake2-rfc) is trusted for the identity-hash oracle; hash collisions are treated as impossible");
+	ev.assume("an encoding whose count field promises more items than present may decode only if it is, by coincidence, the exact canonical encoding of the decoded value (never observed); all other derived violations must fail outright");
+	ev.assume("trailing bytes after a complete value are measured (classes trailing_byte_*), not asserted: the ser API has no end-of-value notion");
+	LIB.prefetch(&universe());
+	lazy_static::initialize(&COMMITS);
+	ev.extra("types_covered", json!(covered_types()));
+	ev.extra("versions", json!(versions()));
+	let n = ctx.n(60_000, 1_500_000);
+	run_family(ctx, "tx", n, || txspec().prop_map(Spec::Tx));
+	run_family(ctx, "chain", n, || chainspec().prop_map(Spec::Chain));
+	run_family(ctx, "segment", n, || segkind().prop_map(Spec::Seg));
+	run_family(ctx, "p2p", n, || p2pspec().prop_map(Spec::P2p));
+	if let Err(f) = catch(|| probes(ctx)) {
+		ctx.report("probes", &f.sig, json!({"type": "probes"}), &f.msg);
+	}
+	set_chain(false);
+	Ok(())
+}
+
+pub fn replay(ctx: &Ctx, part: &str, case: &Value) -> PResult {
+	init_global();
+	lazy_static::initialize(&COMMITS);
+	match part {
+		"tx" | "chain" | "segment" | "p2p" => {
+			if case["type"] == "construction" {
+				return Err(Fail::new("value-construction-failed", case["error"].as_str().unwrap_or("").to_string()));
+			}
+			check_case(ctx, case)
+		}
+		"probes" => catch(|| probes(ctx)),
+		_ => Ok(()),
+	}
 }
